@@ -73,6 +73,9 @@ CONSTANTS Threads,     \* scenario threads (strings)
           MPO,         \* MIN_PARTITION_PER_THREAD_ORDER
           FailAt,      \* index (0-based, counting every pthread_create of the library) of the create that returns EAGAIN; -1: none
           Mut,         \* set of mutation tags ({} for every claim)
+          Qsbr,        \* TRUE: the flavor is QSBR: a registered thread is online (one long read-side section) from register_thread /
+                       \*   thread_online to unregister_thread / thread_offline, read_lock / read_unlock are no-ops inside it, and
+                       \*   synchronize_rcu takes an online caller offline while it waits; scenario threads are offline between operations
           CheckGrowWins \* evaluate GrowWins (scenarios without explicit resize)
 
 W == "h1"                                   \* the work-queue thread (first thread the library creates)
@@ -121,6 +124,9 @@ variables
   gpw = [p \in Procs |-> {}],                     \* readers the pending grace period of p still waits for
   gps = [p \in Procs |-> {}],                     \* orders that were already unlinked when p's grace period began
   cs = [p \in Procs |-> FALSE],                   \* inside a read-side critical section
+  online = [p \in Procs |-> FALSE],               \* Qsbr: registered and online (a grace period waits for it like for an open section);
+                                                  \* scenario threads are registered readers, online from their first step (t_reg) to their "fin"
+  goff = [p \in Procs |-> FALSE],                 \* Qsbr: taken offline by its own synchronize_rcu
   held = [p \in Procs |-> {}],                    \* orders a reader may still dereference in its current section
   wq = <<>>,                                      \* work queue: "rw" (do_resize_cb) / "dw" (do_auto_resize_destroy_cb)
   htAlive = TRUE, destroying = FALSE,
@@ -172,15 +178,21 @@ macro Lock()              { await Drained(self) /\ mutex = "free"; mutex := self
 macro Unlock()            { await Drained(self); mutex := "free"; acc := Ev(self, "unlock", "resize_mutex", 0, 0, 0);
                             errA := Alive("unlock"); }
 macro RLock()             { cs[self] := TRUE; acc := Ev(self, "rlock", "-", 0, 0, 0); }
-macro RUnlock()           { cs[self] := FALSE; held[self] := {}; gpw := [p \in Procs |-> gpw[p] \ {self}];
+macro RUnlock()           { cs[self] := FALSE; held[self] := {}; gpw := [p \in Procs |-> IF online[self] THEN gpw[p] ELSE gpw[p] \ {self}];
                             acc := Ev(self, "runlock", "-", 0, 0, 0); }
 \* update_synchronize_rcu() as implemented by harness/absrcu.h: gp_begin records the sections that are open (no fence yet),
 \* gp_end is enabled once they have all ended and the caller's store buffer is drained
-macro GpBegin()           { gpw[self] := {p \in Procs \ {self} : cs[p]};
+macro GpBegin()           { gpw := [p \in Procs |-> IF p = self THEN {q \in Procs \ {self} : cs[q] \/ online[q]}
+                                                   ELSE IF online[self] THEN gpw[p] \ {self} ELSE gpw[p]];   \* qsbr: an online caller goes offline
+                            goff[self] := online[self]; online[self] := FALSE;
                             gps[self] := {o \in Orders : alloc[o] = "unlinked"};
                             err := IF cs[self] THEN err \cup {"gp_in_cs"} ELSE err;
                             acc := Ev(self, "gp_begin", "-", 0, 0, 0); }
-macro GpEnd()             { await Drained(self) /\ gpw[self] = {}; gpok := gpok \cup gps[self]; acc := Ev(self, "gp_end", "-", 0, 0, 0); }
+macro GpEnd()             { await Drained(self) /\ gpw[self] = {}; gpok := gpok \cup gps[self]; acc := Ev(self, "gp_end", "-", 0, 0, 0);
+                            online[self] := goff[self]; goff[self] := FALSE; }
+\* register_thread / thread_online and unregister_thread / thread_offline of the flavor (no-ops unless Qsbr)
+macro GoOnline(what)      { online[self] := Qsbr; acc := Ev(self, what, "-", 0, 0, 0); }
+macro GoOffline(what)     { online[self] := FALSE; gpw := [p \in Procs |-> IF cs[self] THEN gpw[p] ELSE gpw[p] \ {self}]; acc := Ev(self, what, "-", 0, 0, 0); }
 \* cds_lfht_free_bucket_table(ht, o) from fini_table: only an unlinked order, after a grace period, with the size lowered
 macro FreeOrder(o)        { err := err \cup (IF alloc[o] = "unlinked" THEN {} ELSE {"free_not_unlinked"})
                                        \cup (IF o \in gpok THEN {} ELSE {"free_before_gp"})
@@ -403,8 +415,9 @@ fl: while (TRUE) {
 }
 
 fair process (thr \in Threads)
-variables i = 1, op = NoOp, n = 0, sz = 0, g = 0, nchk = 0, res = 0;
+variables i = 1, op = NoOp, n = 0, sz = 0, g = 0, nchk = 0, res = 0, woff = FALSE;
 {
+t_reg:  online[self] := Qsbr;                                       \* (Qsbr: rcu_register_thread() by the thread itself)
 t_top:  while (i <= Len(Prog[self])) {
           op := Prog[self][i]; nchk := 0; res := 0;
           if (Prog[self][i].op = "resize") {
@@ -417,7 +430,11 @@ t_top:  while (i <= Len(Prog[self])) {
         \* ---------------- cds_lfht_resize(ht, n)
 rs_tgt:   St("resize_target", ClampR(n));                          \* resize_target_update_count(ht, new_size)
 rs_st_ri: St("resize_initiated", 1);                               \* uatomic_store(&ht->resize_initiated, 1)
+          \* finding F7 (repaired): an online QSBR caller goes offline while it blocks on the mutex; Mut "on_lock" = unrepaired code
+rs_off:   if (online[self] /\ "on_lock" \notin Mut) { woff := TRUE; GoOffline("offline") }   \* was_online = read_ongoing(); if (was_online) thread_offline()
+          else { woff := FALSE };
 rs_lock:  Lock();                                                  \* mutex_lock(&ht->resize_mutex)
+rs_on:    if (woff) { GoOnline("online") };                        \* if (was_online) thread_online()
 rs_do:    call do_resize();
 rs_unlock: Unlock();
           goto t_ret;
@@ -459,11 +476,11 @@ l_runlock: RUnlock();
         \* ---------------- cds_lfht_destroy(ht, NULL), called once every other thread has finished
 ds_join:  await \A t \in Threads \ {self} : done[t];
           if (AutoResize) { goto ds_e_on } else { goto ds_db };
-ds_e_on:  acc := Ev(self, "online", "-", 0, 0, 0);                 \* cds_lfht_is_empty(): if (!read_ongoing()) { thread_online(); read_lock(); }
+ds_e_on:  GoOnline("online");                \* cds_lfht_is_empty(): if (!read_ongoing()) { thread_online(); read_lock(); }
 ds_e_lock: RLock();                                                \*   (destroy is called outside any section: the QSBR bracket is always taken)
           errA := Alive("is_empty");
 ds_e_unlock: RUnlock();                                            \* read_unlock(); thread_offline();
-ds_e_off: acc := Ev(self, "offline", "-", 0, 0, 0);
+ds_e_off: GoOffline("offline");
           if (items # 0) { res := 0 - 1; goto t_ret };
 ds_st_ipd: St("in_progress_destroy", 1);                           \* uatomic_store(&ht->in_progress_destroy, 1)
 ds_queue: await Drained(self);                                     \* urcu_workqueue_queue_work(..., &ht->destroy_work, do_auto_resize_destroy_cb)
@@ -477,7 +494,8 @@ ds_fht:   htAlive := FALSE; acc := Ev(self, "htfree", "-", 0, 0, 0);       \* po
 t_ret:    acc := Ev(self, "ret", op.op, 0, 0, res);
           i := i + 1;
         };
-t_fin:  done[self] := TRUE; acc := Ev(self, "fin", "-", 0, 0, 0);
+t_fin:  done[self] := TRUE; acc := Ev(self, "fin", "-", 0, 0, 0);                \* (Qsbr: rcu_unregister_thread())
+        online[self] := FALSE; gpw := [p \in Procs |-> gpw[p] \ {self}];
 }
 
 \* ---------------------------------------------------------------- partition_resize_thread (slots p1, p2)
@@ -486,7 +504,7 @@ variables hn = 0, hg = 0;
 {
 hp_reg:   while (TRUE) {
             await hjob[self].st = "run";
-            hn := 0; acc := Ev(self, "reg", "-", 0, 0, 0);         \* work->ht->flavor->register_thread()
+            hn := 0; GoOnline("reg");        \* work->ht->flavor->register_thread()
 hp_walk:    either { await AutoResize /\ hjob[self].kind = "pop" /\ hn < MaxChkP; hn := hn + 1;
                      with (gg \in Growths \cup {0}) { hg := gg } }
             or     { goto hp_unreg };
@@ -495,7 +513,7 @@ hp_back:    goto hp_walk;
 hp_unreg:   \* work->ht->flavor->unregister_thread(); thread exit (the exit drains the store buffer before the join returns)
             pcov[hjob[self].par] := pcov[hjob[self].par] + hjob[self].len;
             hjob[self].st := "done";
-            acc := Ev(self, "unreg", "-", 0, 0, 0);
+            GoOffline("unreg");
           }
 }
 
@@ -506,30 +524,38 @@ variables cur = "";
 w_wait: while (TRUE) {
           await wq # <<>>;
           cur := Head(wq); wq := Tail(wq);
-          acc := Ev(self, "reg", "-", 0, 0, 0);                    \* ht->flavor->register_thread() (first statement of both callbacks)
           errA := Alive("work");
-w_disp:   if (cur = "rw") { goto w_lock } else { goto w_db };
-          \* do_resize_cb
-w_lock:   Lock();
+w_disp:   if (cur = "rw") { if ("reg_first" \in Mut) { goto w_oreg } else { goto w_lock } } else { goto w_reg2 };
+          \* do_resize_cb, repaired order (finding F6): the thread registers (QSBR: goes online) only once it owns resize_mutex
+w_lock:   Lock();                                                  \* mutex_lock(&ht->resize_mutex)
+w_reg:    GoOnline("reg");                                          \* ht->flavor->register_thread()
 w_do:     call do_resize();
+w_unreg:  GoOffline("unreg");                                       \* ht->flavor->unregister_thread()
 w_unlock: Unlock();
-w_unreg:  acc := Ev(self, "unreg", "-", 0, 0, 0);
 w_wfree:  acc := Ev(self, "wfree", "rw", 0, 0, 0);                 \* poison_free(ht->alloc, work)
           goto w_wait;
+          \* do_resize_cb as it was before the repair of F6 (Mut "reg_first", negative control): register, lock, resize, unlock, unregister
+w_oreg:   GoOnline("reg");
+w_olock:  Lock();
+w_odo:    call do_resize();
+w_ounlock: Unlock();
+w_ounreg: GoOffline("unreg");
+          goto w_wfree;
           \* do_auto_resize_destroy_cb
+w_reg2:   GoOnline("reg");                                          \* ht->flavor->register_thread()
 w_db:     call delete_bucket();
 w_fsc:    err := IF rv[self] = 0 THEN err ELSE err \cup {"destroy_cb_nonempty"};
           if (Accounting) { acc := Ev(self, "scfree", "-", 0, 0, 0) };
-w_unreg2: acc := Ev(self, "unreg", "-", 0, 0, 0);
+w_unreg2: GoOffline("unreg");
 w_fht:    htAlive := FALSE; acc := Ev(self, "htfree", "-", 0, 0, 0);
         }
 }
 } *)
 \* BEGIN TRANSLATION
-VARIABLES pc, mem, sb, mutex, acc, alloc, gpok, gpw, gps, cs, held, wq, 
-          htAlive, destroying, items, growMax, done, err, errA, rv, ra, rb, 
-          rs, osz, nsz, oi, olast, fbr, hjob, ncreate, pnt, pk, pstart, plen, 
-          ppl, pcov, pn, pg, stack
+VARIABLES pc, mem, sb, mutex, acc, alloc, gpok, gpw, gps, cs, online, goff, 
+          held, wq, htAlive, destroying, items, growMax, done, err, errA, rv, 
+          ra, rb, rs, osz, nsz, oi, olast, fbr, hjob, ncreate, pnt, pk, 
+          pstart, plen, ppl, pcov, pn, pg, stack
 
 (* define statement *)
 LastIdx(t, loc) == LET S == {j \in DOMAIN sb[t] : sb[t][j][1] = loc} IN
@@ -552,13 +578,14 @@ NoErr == err = {} /\ errA = {}
 SBBound == \A p \in Procs : Len(sb[p]) <= SBMax
 
 VARIABLES kind, tv, gsz, lg, lsz, lcnt, csz, cg, hsz, ksz, i, op, n, sz, g, 
-          nchk, res, hn, hg, cur
+          nchk, res, woff, hn, hg, cur
 
-vars == << pc, mem, sb, mutex, acc, alloc, gpok, gpw, gps, cs, held, wq, 
-           htAlive, destroying, items, growMax, done, err, errA, rv, ra, rb, 
-           rs, osz, nsz, oi, olast, fbr, hjob, ncreate, pnt, pk, pstart, plen, 
-           ppl, pcov, pn, pg, stack, kind, tv, gsz, lg, lsz, lcnt, csz, cg, 
-           hsz, ksz, i, op, n, sz, g, nchk, res, hn, hg, cur >>
+vars == << pc, mem, sb, mutex, acc, alloc, gpok, gpw, gps, cs, online, goff, 
+           held, wq, htAlive, destroying, items, growMax, done, err, errA, rv, 
+           ra, rb, rs, osz, nsz, oi, olast, fbr, hjob, ncreate, pnt, pk, 
+           pstart, plen, ppl, pcov, pn, pg, stack, kind, tv, gsz, lg, lsz, 
+           lcnt, csz, cg, hsz, ksz, i, op, n, sz, g, nchk, res, woff, hn, hg, 
+           cur >>
 
 ProcSet == (Flushers) \cup (Threads) \cup (Helpers) \cup ({W})
 
@@ -572,6 +599,8 @@ Init == (* Global variables *)
         /\ gpw = [p \in Procs |-> {}]
         /\ gps = [p \in Procs |-> {}]
         /\ cs = [p \in Procs |-> FALSE]
+        /\ online = [p \in Procs |-> FALSE]
+        /\ goff = [p \in Procs |-> FALSE]
         /\ held = [p \in Procs |-> {}]
         /\ wq = <<>>
         /\ htAlive = TRUE
@@ -625,6 +654,7 @@ Init == (* Global variables *)
         /\ g = [self \in Threads |-> 0]
         /\ nchk = [self \in Threads |-> 0]
         /\ res = [self \in Threads |-> 0]
+        /\ woff = [self \in Threads |-> FALSE]
         (* Process helper *)
         /\ hn = [self \in Helpers |-> 0]
         /\ hg = [self \in Helpers |-> 0]
@@ -632,7 +662,7 @@ Init == (* Global variables *)
         /\ cur = [self \in {W} |-> ""]
         /\ stack = [self \in ProcSet |-> << >>]
         /\ pc = [self \in ProcSet |-> CASE self \in Flushers -> "fl"
-                                        [] self \in Threads -> "t_top"
+                                        [] self \in Threads -> "t_reg"
                                         [] self \in Helpers -> "hp_reg"
                                         [] self \in {W} -> "w_wait"]
 
@@ -650,11 +680,12 @@ ph_top(self) == /\ pc[self] = "ph_top"
                            /\ ppl' = [ppl EXCEPT ![self] = Pow2(oi[self] - 1) \div Pow2(Order(PartThreads(Pow2(oi[self] - 1), NrCpusMask, MPO)))]
                            /\ pc' = [pc EXCEPT ![self] = "ph_create"]
                 /\ UNCHANGED << mem, sb, mutex, acc, alloc, gpok, gpw, gps, cs, 
-                                held, wq, htAlive, destroying, items, growMax, 
-                                done, err, errA, rv, ra, rb, rs, osz, nsz, oi, 
-                                olast, fbr, hjob, ncreate, pg, stack, kind, tv, 
-                                gsz, lg, lsz, lcnt, csz, cg, hsz, ksz, i, op, 
-                                n, sz, g, nchk, res, hn, hg, cur >>
+                                online, goff, held, wq, htAlive, destroying, 
+                                items, growMax, done, err, errA, rv, ra, rb, 
+                                rs, osz, nsz, oi, olast, fbr, hjob, ncreate, 
+                                pg, stack, kind, tv, gsz, lg, lsz, lcnt, csz, 
+                                cg, hsz, ksz, i, op, n, sz, g, nchk, res, woff, 
+                                hn, hg, cur >>
 
 ph_create(self) == /\ pc[self] = "ph_create"
                    /\ IF pk[self] < pnt[self]
@@ -678,23 +709,24 @@ ph_create(self) == /\ pc[self] = "ph_create"
                               /\ UNCHANGED << acc, err, hjob, ncreate, pnt, pk, 
                                               pstart, plen >>
                    /\ UNCHANGED << mem, sb, mutex, alloc, gpok, gpw, gps, cs, 
-                                   held, wq, htAlive, destroying, items, 
-                                   growMax, done, errA, rv, ra, rb, rs, osz, 
-                                   nsz, oi, olast, fbr, ppl, pcov, pn, pg, 
+                                   online, goff, held, wq, htAlive, destroying, 
+                                   items, growMax, done, errA, rv, ra, rb, rs, 
+                                   osz, nsz, oi, olast, fbr, ppl, pcov, pn, pg, 
                                    stack, kind, tv, gsz, lg, lsz, lcnt, csz, 
                                    cg, hsz, ksz, i, op, n, sz, g, nchk, res, 
-                                   hn, hg, cur >>
+                                   woff, hn, hg, cur >>
 
 ph_join0(self) == /\ pc[self] = "ph_join0"
                   /\ pk' = [pk EXCEPT ![self] = 0]
                   /\ pc' = [pc EXCEPT ![self] = "ph_join"]
                   /\ UNCHANGED << mem, sb, mutex, acc, alloc, gpok, gpw, gps, 
-                                  cs, held, wq, htAlive, destroying, items, 
-                                  growMax, done, err, errA, rv, ra, rb, rs, 
-                                  osz, nsz, oi, olast, fbr, hjob, ncreate, pnt, 
-                                  pstart, plen, ppl, pcov, pn, pg, stack, kind, 
-                                  tv, gsz, lg, lsz, lcnt, csz, cg, hsz, ksz, i, 
-                                  op, n, sz, g, nchk, res, hn, hg, cur >>
+                                  cs, online, goff, held, wq, htAlive, 
+                                  destroying, items, growMax, done, err, errA, 
+                                  rv, ra, rb, rs, osz, nsz, oi, olast, fbr, 
+                                  hjob, ncreate, pnt, pstart, plen, ppl, pcov, 
+                                  pn, pg, stack, kind, tv, gsz, lg, lsz, lcnt, 
+                                  csz, cg, hsz, ksz, i, op, n, sz, g, nchk, 
+                                  res, woff, hn, hg, cur >>
 
 ph_join(self) == /\ pc[self] = "ph_join"
                  /\ IF pk[self] < pnt[self]
@@ -706,35 +738,37 @@ ph_join(self) == /\ pc[self] = "ph_join"
                        ELSE /\ pc' = [pc EXCEPT ![self] = "ph_after"]
                             /\ UNCHANGED << acc, hjob, pk >>
                  /\ UNCHANGED << mem, sb, mutex, alloc, gpok, gpw, gps, cs, 
-                                 held, wq, htAlive, destroying, items, growMax, 
-                                 done, err, errA, rv, ra, rb, rs, osz, nsz, oi, 
-                                 olast, fbr, ncreate, pnt, pstart, plen, ppl, 
-                                 pcov, pn, pg, stack, kind, tv, gsz, lg, lsz, 
-                                 lcnt, csz, cg, hsz, ksz, i, op, n, sz, g, 
-                                 nchk, res, hn, hg, cur >>
+                                 online, goff, held, wq, htAlive, destroying, 
+                                 items, growMax, done, err, errA, rv, ra, rb, 
+                                 rs, osz, nsz, oi, olast, fbr, ncreate, pnt, 
+                                 pstart, plen, ppl, pcov, pn, pg, stack, kind, 
+                                 tv, gsz, lg, lsz, lcnt, csz, cg, hsz, ksz, i, 
+                                 op, n, sz, g, nchk, res, woff, hn, hg, cur >>
 
 ph_after(self) == /\ pc[self] = "ph_after"
                   /\ IF pstart[self] = 0 /\ pnt[self] > 0
                         THEN /\ pc' = [pc EXCEPT ![self] = "ph_done"]
                         ELSE /\ pc' = [pc EXCEPT ![self] = "ph_own"]
                   /\ UNCHANGED << mem, sb, mutex, acc, alloc, gpok, gpw, gps, 
-                                  cs, held, wq, htAlive, destroying, items, 
-                                  growMax, done, err, errA, rv, ra, rb, rs, 
-                                  osz, nsz, oi, olast, fbr, hjob, ncreate, pnt, 
-                                  pk, pstart, plen, ppl, pcov, pn, pg, stack, 
-                                  kind, tv, gsz, lg, lsz, lcnt, csz, cg, hsz, 
-                                  ksz, i, op, n, sz, g, nchk, res, hn, hg, cur >>
+                                  cs, online, goff, held, wq, htAlive, 
+                                  destroying, items, growMax, done, err, errA, 
+                                  rv, ra, rb, rs, osz, nsz, oi, olast, fbr, 
+                                  hjob, ncreate, pnt, pk, pstart, plen, ppl, 
+                                  pcov, pn, pg, stack, kind, tv, gsz, lg, lsz, 
+                                  lcnt, csz, cg, hsz, ksz, i, op, n, sz, g, 
+                                  nchk, res, woff, hn, hg, cur >>
 
 ph_own(self) == /\ pc[self] = "ph_own"
                 /\ pcov' = [pcov EXCEPT ![self] = pcov[self] + plen[self]]
                 /\ pc' = [pc EXCEPT ![self] = "ph_walk"]
                 /\ UNCHANGED << mem, sb, mutex, acc, alloc, gpok, gpw, gps, cs, 
-                                held, wq, htAlive, destroying, items, growMax, 
-                                done, err, errA, rv, ra, rb, rs, osz, nsz, oi, 
-                                olast, fbr, hjob, ncreate, pnt, pk, pstart, 
-                                plen, ppl, pn, pg, stack, kind, tv, gsz, lg, 
-                                lsz, lcnt, csz, cg, hsz, ksz, i, op, n, sz, g, 
-                                nchk, res, hn, hg, cur >>
+                                online, goff, held, wq, htAlive, destroying, 
+                                items, growMax, done, err, errA, rv, ra, rb, 
+                                rs, osz, nsz, oi, olast, fbr, hjob, ncreate, 
+                                pnt, pk, pstart, plen, ppl, pn, pg, stack, 
+                                kind, tv, gsz, lg, lsz, lcnt, csz, cg, hsz, 
+                                ksz, i, op, n, sz, g, nchk, res, woff, hn, hg, 
+                                cur >>
 
 ph_walk(self) == /\ pc[self] = "ph_walk"
                  /\ \/ /\ AutoResize /\ kind[self] = "pop" /\ pn[self] < MaxChkP
@@ -745,12 +779,13 @@ ph_walk(self) == /\ pc[self] = "ph_walk"
                     \/ /\ pc' = [pc EXCEPT ![self] = "ph_done"]
                        /\ UNCHANGED <<pn, pg>>
                  /\ UNCHANGED << mem, sb, mutex, acc, alloc, gpok, gpw, gps, 
-                                 cs, held, wq, htAlive, destroying, items, 
-                                 growMax, done, err, errA, rv, ra, rb, rs, osz, 
-                                 nsz, oi, olast, fbr, hjob, ncreate, pnt, pk, 
-                                 pstart, plen, ppl, pcov, stack, kind, tv, gsz, 
-                                 lg, lsz, lcnt, csz, cg, hsz, ksz, i, op, n, 
-                                 sz, g, nchk, res, hn, hg, cur >>
+                                 cs, online, goff, held, wq, htAlive, 
+                                 destroying, items, growMax, done, err, errA, 
+                                 rv, ra, rb, rs, osz, nsz, oi, olast, fbr, 
+                                 hjob, ncreate, pnt, pk, pstart, plen, ppl, 
+                                 pcov, stack, kind, tv, gsz, lg, lsz, lcnt, 
+                                 csz, cg, hsz, ksz, i, op, n, sz, g, nchk, res, 
+                                 woff, hn, hg, cur >>
 
 ph_chk(self) == /\ pc[self] = "ph_chk"
                 /\ /\ cg' = [cg EXCEPT ![self] = pg[self]]
@@ -762,22 +797,23 @@ ph_chk(self) == /\ pc[self] = "ph_chk"
                                                         \o stack[self]]
                 /\ pc' = [pc EXCEPT ![self] = "cr_ld_count"]
                 /\ UNCHANGED << mem, sb, mutex, acc, alloc, gpok, gpw, gps, cs, 
-                                held, wq, htAlive, destroying, items, growMax, 
-                                done, err, errA, rv, ra, rb, rs, osz, nsz, oi, 
-                                olast, fbr, hjob, ncreate, pnt, pk, pstart, 
-                                plen, ppl, pcov, pn, pg, kind, tv, gsz, lg, 
-                                lsz, lcnt, hsz, ksz, i, op, n, sz, g, nchk, 
-                                res, hn, hg, cur >>
+                                online, goff, held, wq, htAlive, destroying, 
+                                items, growMax, done, err, errA, rv, ra, rb, 
+                                rs, osz, nsz, oi, olast, fbr, hjob, ncreate, 
+                                pnt, pk, pstart, plen, ppl, pcov, pn, pg, kind, 
+                                tv, gsz, lg, lsz, lcnt, hsz, ksz, i, op, n, sz, 
+                                g, nchk, res, woff, hn, hg, cur >>
 
 ph_back(self) == /\ pc[self] = "ph_back"
                  /\ pc' = [pc EXCEPT ![self] = "ph_walk"]
                  /\ UNCHANGED << mem, sb, mutex, acc, alloc, gpok, gpw, gps, 
-                                 cs, held, wq, htAlive, destroying, items, 
-                                 growMax, done, err, errA, rv, ra, rb, rs, osz, 
-                                 nsz, oi, olast, fbr, hjob, ncreate, pnt, pk, 
-                                 pstart, plen, ppl, pcov, pn, pg, stack, kind, 
-                                 tv, gsz, lg, lsz, lcnt, csz, cg, hsz, ksz, i, 
-                                 op, n, sz, g, nchk, res, hn, hg, cur >>
+                                 cs, online, goff, held, wq, htAlive, 
+                                 destroying, items, growMax, done, err, errA, 
+                                 rv, ra, rb, rs, osz, nsz, oi, olast, fbr, 
+                                 hjob, ncreate, pnt, pk, pstart, plen, ppl, 
+                                 pcov, pn, pg, stack, kind, tv, gsz, lg, lsz, 
+                                 lcnt, csz, cg, hsz, ksz, i, op, n, sz, g, 
+                                 nchk, res, woff, hn, hg, cur >>
 
 ph_done(self) == /\ pc[self] = "ph_done"
                  /\ Drained(self)
@@ -786,12 +822,12 @@ ph_done(self) == /\ pc[self] = "ph_done"
                  /\ kind' = [kind EXCEPT ![self] = Head(stack[self]).kind]
                  /\ stack' = [stack EXCEPT ![self] = Tail(stack[self])]
                  /\ UNCHANGED << mem, sb, mutex, acc, alloc, gpok, gpw, gps, 
-                                 cs, held, wq, htAlive, destroying, items, 
-                                 growMax, done, errA, rv, ra, rb, rs, osz, nsz, 
-                                 oi, olast, fbr, hjob, ncreate, pnt, pk, 
-                                 pstart, plen, ppl, pcov, pn, pg, tv, gsz, lg, 
-                                 lsz, lcnt, csz, cg, hsz, ksz, i, op, n, sz, g, 
-                                 nchk, res, hn, hg, cur >>
+                                 cs, online, goff, held, wq, htAlive, 
+                                 destroying, items, growMax, done, errA, rv, 
+                                 ra, rb, rs, osz, nsz, oi, olast, fbr, hjob, 
+                                 ncreate, pnt, pk, pstart, plen, ppl, pcov, pn, 
+                                 pg, tv, gsz, lg, lsz, lcnt, csz, cg, hsz, ksz, 
+                                 i, op, n, sz, g, nchk, res, woff, hn, hg, cur >>
 
 partition(self) == ph_top(self) \/ ph_create(self) \/ ph_join0(self)
                       \/ ph_join(self) \/ ph_after(self) \/ ph_own(self)
@@ -809,12 +845,12 @@ dr_ld_ipd(self) == /\ pc[self] = "dr_ld_ipd"
                          ELSE /\ pc' = [pc EXCEPT ![self] = "dr_st_ri1"]
                               /\ stack' = stack
                    /\ UNCHANGED << mem, sb, mutex, alloc, gpok, gpw, gps, cs, 
-                                   held, wq, htAlive, destroying, items, 
-                                   growMax, done, rv, rb, rs, osz, nsz, oi, 
-                                   olast, fbr, hjob, ncreate, pnt, pk, pstart, 
-                                   plen, ppl, pcov, pn, pg, kind, tv, gsz, lg, 
-                                   lsz, lcnt, csz, cg, hsz, ksz, i, op, n, sz, 
-                                   g, nchk, res, hn, hg, cur >>
+                                   online, goff, held, wq, htAlive, destroying, 
+                                   items, growMax, done, rv, rb, rs, osz, nsz, 
+                                   oi, olast, fbr, hjob, ncreate, pnt, pk, 
+                                   pstart, plen, ppl, pcov, pn, pg, kind, tv, 
+                                   gsz, lg, lsz, lcnt, csz, cg, hsz, ksz, i, 
+                                   op, n, sz, g, nchk, res, woff, hn, hg, cur >>
 
 dr_st_ri1(self) == /\ pc[self] = "dr_st_ri1"
                    /\ IF TSO
@@ -825,13 +861,14 @@ dr_st_ri1(self) == /\ pc[self] = "dr_st_ri1"
                    /\ acc' = Ev(self, "st", "resize_initiated", 1, 0, 0)
                    /\ errA' = Alive("st:" \o "resize_initiated")
                    /\ pc' = [pc EXCEPT ![self] = "dr_ld_tgt"]
-                   /\ UNCHANGED << mutex, alloc, gpok, gpw, gps, cs, held, wq, 
-                                   htAlive, destroying, items, growMax, done, 
-                                   err, rv, ra, rb, rs, osz, nsz, oi, olast, 
-                                   fbr, hjob, ncreate, pnt, pk, pstart, plen, 
-                                   ppl, pcov, pn, pg, stack, kind, tv, gsz, lg, 
-                                   lsz, lcnt, csz, cg, hsz, ksz, i, op, n, sz, 
-                                   g, nchk, res, hn, hg, cur >>
+                   /\ UNCHANGED << mutex, alloc, gpok, gpw, gps, cs, online, 
+                                   goff, held, wq, htAlive, destroying, items, 
+                                   growMax, done, err, rv, ra, rb, rs, osz, 
+                                   nsz, oi, olast, fbr, hjob, ncreate, pnt, pk, 
+                                   pstart, plen, ppl, pcov, pn, pg, stack, 
+                                   kind, tv, gsz, lg, lsz, lcnt, csz, cg, hsz, 
+                                   ksz, i, op, n, sz, g, nchk, res, woff, hn, 
+                                   hg, cur >>
 
 dr_ld_tgt(self) == /\ pc[self] = "dr_ld_tgt"
                    /\ osz' = [osz EXCEPT ![self] = Rd(self, "size")]
@@ -850,24 +887,25 @@ dr_ld_tgt(self) == /\ pc[self] = "dr_ld_tgt"
                                     ELSE /\ pc' = [pc EXCEPT ![self] = "dr_st_ri0"]
                                          /\ UNCHANGED << oi, olast >>
                    /\ UNCHANGED << mem, sb, mutex, alloc, gpok, gpw, gps, cs, 
-                                   held, wq, htAlive, destroying, items, 
-                                   growMax, done, err, rv, ra, rb, rs, hjob, 
-                                   ncreate, pnt, pk, pstart, plen, ppl, pcov, 
-                                   pn, pg, stack, kind, tv, gsz, lg, lsz, lcnt, 
-                                   csz, cg, hsz, ksz, i, op, n, sz, g, nchk, 
-                                   res, hn, hg, cur >>
+                                   online, goff, held, wq, htAlive, destroying, 
+                                   items, growMax, done, err, rv, ra, rb, rs, 
+                                   hjob, ncreate, pnt, pk, pstart, plen, ppl, 
+                                   pcov, pn, pg, stack, kind, tv, gsz, lg, lsz, 
+                                   lcnt, csz, cg, hsz, ksz, i, op, n, sz, g, 
+                                   nchk, res, woff, hn, hg, cur >>
 
 it_loop(self) == /\ pc[self] = "it_loop"
                  /\ IF oi[self] > olast[self]
                        THEN /\ pc' = [pc EXCEPT ![self] = "dr_st_ri0"]
                        ELSE /\ pc' = [pc EXCEPT ![self] = "it_ld_tgt"]
                  /\ UNCHANGED << mem, sb, mutex, acc, alloc, gpok, gpw, gps, 
-                                 cs, held, wq, htAlive, destroying, items, 
-                                 growMax, done, err, errA, rv, ra, rb, rs, osz, 
-                                 nsz, oi, olast, fbr, hjob, ncreate, pnt, pk, 
-                                 pstart, plen, ppl, pcov, pn, pg, stack, kind, 
-                                 tv, gsz, lg, lsz, lcnt, csz, cg, hsz, ksz, i, 
-                                 op, n, sz, g, nchk, res, hn, hg, cur >>
+                                 cs, online, goff, held, wq, htAlive, 
+                                 destroying, items, growMax, done, err, errA, 
+                                 rv, ra, rb, rs, osz, nsz, oi, olast, fbr, 
+                                 hjob, ncreate, pnt, pk, pstart, plen, ppl, 
+                                 pcov, pn, pg, stack, kind, tv, gsz, lg, lsz, 
+                                 lcnt, csz, cg, hsz, ksz, i, op, n, sz, g, 
+                                 nchk, res, woff, hn, hg, cur >>
 
 it_ld_tgt(self) == /\ pc[self] = "it_ld_tgt"
                    /\ ra' = [ra EXCEPT ![self] = Rd(self, "resize_target")]
@@ -877,13 +915,13 @@ it_ld_tgt(self) == /\ pc[self] = "it_ld_tgt"
                          THEN /\ pc' = [pc EXCEPT ![self] = "dr_st_ri0"]
                          ELSE /\ pc' = [pc EXCEPT ![self] = "it_alloc"]
                    /\ UNCHANGED << mem, sb, mutex, alloc, gpok, gpw, gps, cs, 
-                                   held, wq, htAlive, destroying, items, 
-                                   growMax, done, err, rv, rb, rs, osz, nsz, 
-                                   oi, olast, fbr, hjob, ncreate, pnt, pk, 
+                                   online, goff, held, wq, htAlive, destroying, 
+                                   items, growMax, done, err, rv, rb, rs, osz, 
+                                   nsz, oi, olast, fbr, hjob, ncreate, pnt, pk, 
                                    pstart, plen, ppl, pcov, pn, pg, stack, 
                                    kind, tv, gsz, lg, lsz, lcnt, csz, cg, hsz, 
-                                   ksz, i, op, n, sz, g, nchk, res, hn, hg, 
-                                   cur >>
+                                   ksz, i, op, n, sz, g, nchk, res, woff, hn, 
+                                   hg, cur >>
 
 it_alloc(self) == /\ pc[self] = "it_alloc"
                   /\ IF "pub_first" \in Mut
@@ -893,13 +931,13 @@ it_alloc(self) == /\ pc[self] = "it_alloc"
                              /\ alloc' = [alloc EXCEPT ![oi[self]] = "allocated"]
                              /\ acc' = Ev(self, "balloc", "order", oi[self], 0, 0)
                              /\ pc' = [pc EXCEPT ![self] = "it_pop"]
-                  /\ UNCHANGED << mem, sb, mutex, gpok, gpw, gps, cs, held, wq, 
-                                  htAlive, destroying, items, growMax, done, 
-                                  errA, rv, ra, rb, rs, osz, nsz, oi, olast, 
-                                  fbr, hjob, ncreate, pnt, pk, pstart, plen, 
-                                  ppl, pcov, pn, pg, stack, kind, tv, gsz, lg, 
-                                  lsz, lcnt, csz, cg, hsz, ksz, i, op, n, sz, 
-                                  g, nchk, res, hn, hg, cur >>
+                  /\ UNCHANGED << mem, sb, mutex, gpok, gpw, gps, cs, online, 
+                                  goff, held, wq, htAlive, destroying, items, 
+                                  growMax, done, errA, rv, ra, rb, rs, osz, 
+                                  nsz, oi, olast, fbr, hjob, ncreate, pnt, pk, 
+                                  pstart, plen, ppl, pcov, pn, pg, stack, kind, 
+                                  tv, gsz, lg, lsz, lcnt, csz, cg, hsz, ksz, i, 
+                                  op, n, sz, g, nchk, res, woff, hn, hg, cur >>
 
 it_pop(self) == /\ pc[self] = "it_pop"
                 /\ /\ kind' = [kind EXCEPT ![self] = "pop"]
@@ -909,12 +947,12 @@ it_pop(self) == /\ pc[self] = "it_pop"
                                                         \o stack[self]]
                 /\ pc' = [pc EXCEPT ![self] = "ph_top"]
                 /\ UNCHANGED << mem, sb, mutex, acc, alloc, gpok, gpw, gps, cs, 
-                                held, wq, htAlive, destroying, items, growMax, 
-                                done, err, errA, rv, ra, rb, rs, osz, nsz, oi, 
-                                olast, fbr, hjob, ncreate, pnt, pk, pstart, 
-                                plen, ppl, pcov, pn, pg, tv, gsz, lg, lsz, 
-                                lcnt, csz, cg, hsz, ksz, i, op, n, sz, g, nchk, 
-                                res, hn, hg, cur >>
+                                online, goff, held, wq, htAlive, destroying, 
+                                items, growMax, done, err, errA, rv, ra, rb, 
+                                rs, osz, nsz, oi, olast, fbr, hjob, ncreate, 
+                                pnt, pk, pstart, plen, ppl, pcov, pn, pg, tv, 
+                                gsz, lg, lsz, lcnt, csz, cg, hsz, ksz, i, op, 
+                                n, sz, g, nchk, res, woff, hn, hg, cur >>
 
 it_st_size(self) == /\ pc[self] = "it_st_size"
                     /\ IF TSO
@@ -929,13 +967,14 @@ it_st_size(self) == /\ pc[self] = "it_st_size"
                                /\ alloc' = alloc
                           ELSE /\ alloc' = [alloc EXCEPT ![oi[self]] = "published"]
                                /\ pc' = [pc EXCEPT ![self] = "it_ld_ipd"]
-                    /\ UNCHANGED << mutex, gpok, gpw, gps, cs, held, wq, 
-                                    htAlive, destroying, items, growMax, done, 
-                                    err, rv, ra, rb, rs, osz, nsz, oi, olast, 
-                                    fbr, hjob, ncreate, pnt, pk, pstart, plen, 
-                                    ppl, pcov, pn, pg, stack, kind, tv, gsz, 
-                                    lg, lsz, lcnt, csz, cg, hsz, ksz, i, op, n, 
-                                    sz, g, nchk, res, hn, hg, cur >>
+                    /\ UNCHANGED << mutex, gpok, gpw, gps, cs, online, goff, 
+                                    held, wq, htAlive, destroying, items, 
+                                    growMax, done, err, rv, ra, rb, rs, osz, 
+                                    nsz, oi, olast, fbr, hjob, ncreate, pnt, 
+                                    pk, pstart, plen, ppl, pcov, pn, pg, stack, 
+                                    kind, tv, gsz, lg, lsz, lcnt, csz, cg, hsz, 
+                                    ksz, i, op, n, sz, g, nchk, res, woff, hn, 
+                                    hg, cur >>
 
 it_ld_ipd(self) == /\ pc[self] = "it_ld_ipd"
                    /\ ra' = [ra EXCEPT ![self] = Rd(self, "in_progress_destroy")]
@@ -946,37 +985,39 @@ it_ld_ipd(self) == /\ pc[self] = "it_ld_ipd"
                          THEN /\ pc' = [pc EXCEPT ![self] = "dr_st_ri0"]
                          ELSE /\ pc' = [pc EXCEPT ![self] = "it_loop"]
                    /\ UNCHANGED << mem, sb, mutex, alloc, gpok, gpw, gps, cs, 
-                                   held, wq, htAlive, destroying, items, 
-                                   growMax, done, err, rv, rb, rs, osz, nsz, 
-                                   olast, fbr, hjob, ncreate, pnt, pk, pstart, 
-                                   plen, ppl, pcov, pn, pg, stack, kind, tv, 
-                                   gsz, lg, lsz, lcnt, csz, cg, hsz, ksz, i, 
-                                   op, n, sz, g, nchk, res, hn, hg, cur >>
+                                   online, goff, held, wq, htAlive, destroying, 
+                                   items, growMax, done, err, rv, rb, rs, osz, 
+                                   nsz, olast, fbr, hjob, ncreate, pnt, pk, 
+                                   pstart, plen, ppl, pcov, pn, pg, stack, 
+                                   kind, tv, gsz, lg, lsz, lcnt, csz, cg, hsz, 
+                                   ksz, i, op, n, sz, g, nchk, res, woff, hn, 
+                                   hg, cur >>
 
 it_alloc2(self) == /\ pc[self] = "it_alloc2"
                    /\ alloc' = [alloc EXCEPT ![oi[self]] = "published"]
                    /\ acc' = Ev(self, "balloc", "order", oi[self], 0, 0)
                    /\ pc' = [pc EXCEPT ![self] = "it_ld_ipd"]
-                   /\ UNCHANGED << mem, sb, mutex, gpok, gpw, gps, cs, held, 
-                                   wq, htAlive, destroying, items, growMax, 
-                                   done, err, errA, rv, ra, rb, rs, osz, nsz, 
-                                   oi, olast, fbr, hjob, ncreate, pnt, pk, 
-                                   pstart, plen, ppl, pcov, pn, pg, stack, 
-                                   kind, tv, gsz, lg, lsz, lcnt, csz, cg, hsz, 
-                                   ksz, i, op, n, sz, g, nchk, res, hn, hg, 
-                                   cur >>
+                   /\ UNCHANGED << mem, sb, mutex, gpok, gpw, gps, cs, online, 
+                                   goff, held, wq, htAlive, destroying, items, 
+                                   growMax, done, err, errA, rv, ra, rb, rs, 
+                                   osz, nsz, oi, olast, fbr, hjob, ncreate, 
+                                   pnt, pk, pstart, plen, ppl, pcov, pn, pg, 
+                                   stack, kind, tv, gsz, lg, lsz, lcnt, csz, 
+                                   cg, hsz, ksz, i, op, n, sz, g, nchk, res, 
+                                   woff, hn, hg, cur >>
 
 ft_loop(self) == /\ pc[self] = "ft_loop"
                  /\ IF oi[self] < olast[self]
                        THEN /\ pc' = [pc EXCEPT ![self] = "ft_end"]
                        ELSE /\ pc' = [pc EXCEPT ![self] = "ft_ld_tgt"]
                  /\ UNCHANGED << mem, sb, mutex, acc, alloc, gpok, gpw, gps, 
-                                 cs, held, wq, htAlive, destroying, items, 
-                                 growMax, done, err, errA, rv, ra, rb, rs, osz, 
-                                 nsz, oi, olast, fbr, hjob, ncreate, pnt, pk, 
-                                 pstart, plen, ppl, pcov, pn, pg, stack, kind, 
-                                 tv, gsz, lg, lsz, lcnt, csz, cg, hsz, ksz, i, 
-                                 op, n, sz, g, nchk, res, hn, hg, cur >>
+                                 cs, online, goff, held, wq, htAlive, 
+                                 destroying, items, growMax, done, err, errA, 
+                                 rv, ra, rb, rs, osz, nsz, oi, olast, fbr, 
+                                 hjob, ncreate, pnt, pk, pstart, plen, ppl, 
+                                 pcov, pn, pg, stack, kind, tv, gsz, lg, lsz, 
+                                 lcnt, csz, cg, hsz, ksz, i, op, n, sz, g, 
+                                 nchk, res, woff, hn, hg, cur >>
 
 ft_ld_tgt(self) == /\ pc[self] = "ft_ld_tgt"
                    /\ ra' = [ra EXCEPT ![self] = Rd(self, "resize_target")]
@@ -986,13 +1027,13 @@ ft_ld_tgt(self) == /\ pc[self] = "ft_ld_tgt"
                          THEN /\ pc' = [pc EXCEPT ![self] = "ft_end"]
                          ELSE /\ pc' = [pc EXCEPT ![self] = "ft_st_size"]
                    /\ UNCHANGED << mem, sb, mutex, alloc, gpok, gpw, gps, cs, 
-                                   held, wq, htAlive, destroying, items, 
-                                   growMax, done, err, rv, rb, rs, osz, nsz, 
-                                   oi, olast, fbr, hjob, ncreate, pnt, pk, 
+                                   online, goff, held, wq, htAlive, destroying, 
+                                   items, growMax, done, err, rv, rb, rs, osz, 
+                                   nsz, oi, olast, fbr, hjob, ncreate, pnt, pk, 
                                    pstart, plen, ppl, pcov, pn, pg, stack, 
                                    kind, tv, gsz, lg, lsz, lcnt, csz, cg, hsz, 
-                                   ksz, i, op, n, sz, g, nchk, res, hn, hg, 
-                                   cur >>
+                                   ksz, i, op, n, sz, g, nchk, res, woff, hn, 
+                                   hg, cur >>
 
 ft_st_size(self) == /\ pc[self] = "ft_st_size"
                     /\ IF TSO
@@ -1003,19 +1044,23 @@ ft_st_size(self) == /\ pc[self] = "ft_st_size"
                     /\ acc' = Ev(self, "st", "size", (Pow2(oi[self] - 1)), 0, 0)
                     /\ errA' = Alive("st:" \o "size")
                     /\ pc' = [pc EXCEPT ![self] = "ft_gp1_b"]
-                    /\ UNCHANGED << mutex, alloc, gpok, gpw, gps, cs, held, wq, 
-                                    htAlive, destroying, items, growMax, done, 
-                                    err, rv, ra, rb, rs, osz, nsz, oi, olast, 
-                                    fbr, hjob, ncreate, pnt, pk, pstart, plen, 
-                                    ppl, pcov, pn, pg, stack, kind, tv, gsz, 
-                                    lg, lsz, lcnt, csz, cg, hsz, ksz, i, op, n, 
-                                    sz, g, nchk, res, hn, hg, cur >>
+                    /\ UNCHANGED << mutex, alloc, gpok, gpw, gps, cs, online, 
+                                    goff, held, wq, htAlive, destroying, items, 
+                                    growMax, done, err, rv, ra, rb, rs, osz, 
+                                    nsz, oi, olast, fbr, hjob, ncreate, pnt, 
+                                    pk, pstart, plen, ppl, pcov, pn, pg, stack, 
+                                    kind, tv, gsz, lg, lsz, lcnt, csz, cg, hsz, 
+                                    ksz, i, op, n, sz, g, nchk, res, woff, hn, 
+                                    hg, cur >>
 
 ft_gp1_b(self) == /\ pc[self] = "ft_gp1_b"
                   /\ IF "no_gp" \in Mut
                         THEN /\ pc' = [pc EXCEPT ![self] = "ft_free1"]
-                             /\ UNCHANGED << acc, gpw, gps, err >>
-                        ELSE /\ gpw' = [gpw EXCEPT ![self] = {p \in Procs \ {self} : cs[p]}]
+                             /\ UNCHANGED << acc, gpw, gps, online, goff, err >>
+                        ELSE /\ gpw' = [p \in Procs |-> IF p = self THEN {q \in Procs \ {self} : cs[q] \/ online[q]}
+                                                       ELSE IF online[self] THEN gpw[p] \ {self} ELSE gpw[p]]
+                             /\ goff' = [goff EXCEPT ![self] = online[self]]
+                             /\ online' = [online EXCEPT ![self] = FALSE]
                              /\ gps' = [gps EXCEPT ![self] = {o \in Orders : alloc[o] = "unlinked"}]
                              /\ err' = (IF cs[self] THEN err \cup {"gp_in_cs"} ELSE err)
                              /\ acc' = Ev(self, "gp_begin", "-", 0, 0, 0)
@@ -1026,12 +1071,14 @@ ft_gp1_b(self) == /\ pc[self] = "ft_gp1_b"
                                   fbr, hjob, ncreate, pnt, pk, pstart, plen, 
                                   ppl, pcov, pn, pg, stack, kind, tv, gsz, lg, 
                                   lsz, lcnt, csz, cg, hsz, ksz, i, op, n, sz, 
-                                  g, nchk, res, hn, hg, cur >>
+                                  g, nchk, res, woff, hn, hg, cur >>
 
 ft_gp1_e(self) == /\ pc[self] = "ft_gp1_e"
                   /\ Drained(self) /\ gpw[self] = {}
                   /\ gpok' = (gpok \cup gps[self])
                   /\ acc' = Ev(self, "gp_end", "-", 0, 0, 0)
+                  /\ online' = [online EXCEPT ![self] = goff[self]]
+                  /\ goff' = [goff EXCEPT ![self] = FALSE]
                   /\ pc' = [pc EXCEPT ![self] = "ft_free1"]
                   /\ UNCHANGED << mem, sb, mutex, alloc, gpw, gps, cs, held, 
                                   wq, htAlive, destroying, items, growMax, 
@@ -1039,7 +1086,7 @@ ft_gp1_e(self) == /\ pc[self] = "ft_gp1_e"
                                   oi, olast, fbr, hjob, ncreate, pnt, pk, 
                                   pstart, plen, ppl, pcov, pn, pg, stack, kind, 
                                   tv, gsz, lg, lsz, lcnt, csz, cg, hsz, ksz, i, 
-                                  op, n, sz, g, nchk, res, hn, hg, cur >>
+                                  op, n, sz, g, nchk, res, woff, hn, hg, cur >>
 
 ft_free1(self) == /\ pc[self] = "ft_free1"
                   /\ IF fbr[self] # 0
@@ -1052,13 +1099,13 @@ ft_free1(self) == /\ pc[self] = "ft_free1"
                         ELSE /\ TRUE
                              /\ UNCHANGED << acc, alloc, gpok, err >>
                   /\ pc' = [pc EXCEPT ![self] = "ft_remove"]
-                  /\ UNCHANGED << mem, sb, mutex, gpw, gps, cs, held, wq, 
-                                  htAlive, destroying, items, growMax, done, 
-                                  errA, rv, ra, rb, rs, osz, nsz, oi, olast, 
-                                  fbr, hjob, ncreate, pnt, pk, pstart, plen, 
-                                  ppl, pcov, pn, pg, stack, kind, tv, gsz, lg, 
-                                  lsz, lcnt, csz, cg, hsz, ksz, i, op, n, sz, 
-                                  g, nchk, res, hn, hg, cur >>
+                  /\ UNCHANGED << mem, sb, mutex, gpw, gps, cs, online, goff, 
+                                  held, wq, htAlive, destroying, items, 
+                                  growMax, done, errA, rv, ra, rb, rs, osz, 
+                                  nsz, oi, olast, fbr, hjob, ncreate, pnt, pk, 
+                                  pstart, plen, ppl, pcov, pn, pg, stack, kind, 
+                                  tv, gsz, lg, lsz, lcnt, csz, cg, hsz, ksz, i, 
+                                  op, n, sz, g, nchk, res, woff, hn, hg, cur >>
 
 ft_remove(self) == /\ pc[self] = "ft_remove"
                    /\ /\ kind' = [kind EXCEPT ![self] = "rem"]
@@ -1068,12 +1115,13 @@ ft_remove(self) == /\ pc[self] = "ft_remove"
                                                            \o stack[self]]
                    /\ pc' = [pc EXCEPT ![self] = "ph_top"]
                    /\ UNCHANGED << mem, sb, mutex, acc, alloc, gpok, gpw, gps, 
-                                   cs, held, wq, htAlive, destroying, items, 
-                                   growMax, done, err, errA, rv, ra, rb, rs, 
-                                   osz, nsz, oi, olast, fbr, hjob, ncreate, 
-                                   pnt, pk, pstart, plen, ppl, pcov, pn, pg, 
-                                   tv, gsz, lg, lsz, lcnt, csz, cg, hsz, ksz, 
-                                   i, op, n, sz, g, nchk, res, hn, hg, cur >>
+                                   cs, online, goff, held, wq, htAlive, 
+                                   destroying, items, growMax, done, err, errA, 
+                                   rv, ra, rb, rs, osz, nsz, oi, olast, fbr, 
+                                   hjob, ncreate, pnt, pk, pstart, plen, ppl, 
+                                   pcov, pn, pg, tv, gsz, lg, lsz, lcnt, csz, 
+                                   cg, hsz, ksz, i, op, n, sz, g, nchk, res, 
+                                   woff, hn, hg, cur >>
 
 ft_unlnk(self) == /\ pc[self] = "ft_unlnk"
                   /\ err' = (IF alloc[oi[self]] = "published" THEN err ELSE err \cup {"unlink_not_published"})
@@ -1081,13 +1129,13 @@ ft_unlnk(self) == /\ pc[self] = "ft_unlnk"
                   /\ gpok' = gpok \ {oi[self]}
                   /\ fbr' = [fbr EXCEPT ![self] = oi[self]]
                   /\ pc' = [pc EXCEPT ![self] = "ft_ld_ipd"]
-                  /\ UNCHANGED << mem, sb, mutex, acc, gpw, gps, cs, held, wq, 
-                                  htAlive, destroying, items, growMax, done, 
-                                  errA, rv, ra, rb, rs, osz, nsz, oi, olast, 
-                                  hjob, ncreate, pnt, pk, pstart, plen, ppl, 
-                                  pcov, pn, pg, stack, kind, tv, gsz, lg, lsz, 
-                                  lcnt, csz, cg, hsz, ksz, i, op, n, sz, g, 
-                                  nchk, res, hn, hg, cur >>
+                  /\ UNCHANGED << mem, sb, mutex, acc, gpw, gps, cs, online, 
+                                  goff, held, wq, htAlive, destroying, items, 
+                                  growMax, done, errA, rv, ra, rb, rs, osz, 
+                                  nsz, oi, olast, hjob, ncreate, pnt, pk, 
+                                  pstart, plen, ppl, pcov, pn, pg, stack, kind, 
+                                  tv, gsz, lg, lsz, lcnt, csz, cg, hsz, ksz, i, 
+                                  op, n, sz, g, nchk, res, woff, hn, hg, cur >>
 
 ft_ld_ipd(self) == /\ pc[self] = "ft_ld_ipd"
                    /\ ra' = [ra EXCEPT ![self] = Rd(self, "in_progress_destroy")]
@@ -1098,30 +1146,35 @@ ft_ld_ipd(self) == /\ pc[self] = "ft_ld_ipd"
                          THEN /\ pc' = [pc EXCEPT ![self] = "ft_end"]
                          ELSE /\ pc' = [pc EXCEPT ![self] = "ft_loop"]
                    /\ UNCHANGED << mem, sb, mutex, alloc, gpok, gpw, gps, cs, 
-                                   held, wq, htAlive, destroying, items, 
-                                   growMax, done, err, rv, rb, rs, osz, nsz, 
-                                   olast, fbr, hjob, ncreate, pnt, pk, pstart, 
-                                   plen, ppl, pcov, pn, pg, stack, kind, tv, 
-                                   gsz, lg, lsz, lcnt, csz, cg, hsz, ksz, i, 
-                                   op, n, sz, g, nchk, res, hn, hg, cur >>
+                                   online, goff, held, wq, htAlive, destroying, 
+                                   items, growMax, done, err, rv, rb, rs, osz, 
+                                   nsz, olast, fbr, hjob, ncreate, pnt, pk, 
+                                   pstart, plen, ppl, pcov, pn, pg, stack, 
+                                   kind, tv, gsz, lg, lsz, lcnt, csz, cg, hsz, 
+                                   ksz, i, op, n, sz, g, nchk, res, woff, hn, 
+                                   hg, cur >>
 
 ft_end(self) == /\ pc[self] = "ft_end"
                 /\ IF fbr[self] = 0
                       THEN /\ pc' = [pc EXCEPT ![self] = "dr_st_ri0"]
                       ELSE /\ pc' = [pc EXCEPT ![self] = "ft_gp2_b"]
                 /\ UNCHANGED << mem, sb, mutex, acc, alloc, gpok, gpw, gps, cs, 
-                                held, wq, htAlive, destroying, items, growMax, 
-                                done, err, errA, rv, ra, rb, rs, osz, nsz, oi, 
-                                olast, fbr, hjob, ncreate, pnt, pk, pstart, 
-                                plen, ppl, pcov, pn, pg, stack, kind, tv, gsz, 
-                                lg, lsz, lcnt, csz, cg, hsz, ksz, i, op, n, sz, 
-                                g, nchk, res, hn, hg, cur >>
+                                online, goff, held, wq, htAlive, destroying, 
+                                items, growMax, done, err, errA, rv, ra, rb, 
+                                rs, osz, nsz, oi, olast, fbr, hjob, ncreate, 
+                                pnt, pk, pstart, plen, ppl, pcov, pn, pg, 
+                                stack, kind, tv, gsz, lg, lsz, lcnt, csz, cg, 
+                                hsz, ksz, i, op, n, sz, g, nchk, res, woff, hn, 
+                                hg, cur >>
 
 ft_gp2_b(self) == /\ pc[self] = "ft_gp2_b"
                   /\ IF "no_gp" \in Mut
                         THEN /\ pc' = [pc EXCEPT ![self] = "ft_free2"]
-                             /\ UNCHANGED << acc, gpw, gps, err >>
-                        ELSE /\ gpw' = [gpw EXCEPT ![self] = {p \in Procs \ {self} : cs[p]}]
+                             /\ UNCHANGED << acc, gpw, gps, online, goff, err >>
+                        ELSE /\ gpw' = [p \in Procs |-> IF p = self THEN {q \in Procs \ {self} : cs[q] \/ online[q]}
+                                                       ELSE IF online[self] THEN gpw[p] \ {self} ELSE gpw[p]]
+                             /\ goff' = [goff EXCEPT ![self] = online[self]]
+                             /\ online' = [online EXCEPT ![self] = FALSE]
                              /\ gps' = [gps EXCEPT ![self] = {o \in Orders : alloc[o] = "unlinked"}]
                              /\ err' = (IF cs[self] THEN err \cup {"gp_in_cs"} ELSE err)
                              /\ acc' = Ev(self, "gp_begin", "-", 0, 0, 0)
@@ -1132,12 +1185,14 @@ ft_gp2_b(self) == /\ pc[self] = "ft_gp2_b"
                                   fbr, hjob, ncreate, pnt, pk, pstart, plen, 
                                   ppl, pcov, pn, pg, stack, kind, tv, gsz, lg, 
                                   lsz, lcnt, csz, cg, hsz, ksz, i, op, n, sz, 
-                                  g, nchk, res, hn, hg, cur >>
+                                  g, nchk, res, woff, hn, hg, cur >>
 
 ft_gp2_e(self) == /\ pc[self] = "ft_gp2_e"
                   /\ Drained(self) /\ gpw[self] = {}
                   /\ gpok' = (gpok \cup gps[self])
                   /\ acc' = Ev(self, "gp_end", "-", 0, 0, 0)
+                  /\ online' = [online EXCEPT ![self] = goff[self]]
+                  /\ goff' = [goff EXCEPT ![self] = FALSE]
                   /\ pc' = [pc EXCEPT ![self] = "ft_free2"]
                   /\ UNCHANGED << mem, sb, mutex, alloc, gpw, gps, cs, held, 
                                   wq, htAlive, destroying, items, growMax, 
@@ -1145,7 +1200,7 @@ ft_gp2_e(self) == /\ pc[self] = "ft_gp2_e"
                                   oi, olast, fbr, hjob, ncreate, pnt, pk, 
                                   pstart, plen, ppl, pcov, pn, pg, stack, kind, 
                                   tv, gsz, lg, lsz, lcnt, csz, cg, hsz, ksz, i, 
-                                  op, n, sz, g, nchk, res, hn, hg, cur >>
+                                  op, n, sz, g, nchk, res, woff, hn, hg, cur >>
 
 ft_free2(self) == /\ pc[self] = "ft_free2"
                   /\ err' = (err \cup (IF alloc[(fbr[self])] = "unlinked" THEN {} ELSE {"free_not_unlinked"})
@@ -1155,13 +1210,13 @@ ft_free2(self) == /\ pc[self] = "ft_free2"
                   /\ gpok' = gpok \ {(fbr[self])}
                   /\ acc' = Ev(self, "bfree", "order", (fbr[self]), 0, 0)
                   /\ pc' = [pc EXCEPT ![self] = "dr_st_ri0"]
-                  /\ UNCHANGED << mem, sb, mutex, gpw, gps, cs, held, wq, 
-                                  htAlive, destroying, items, growMax, done, 
-                                  errA, rv, ra, rb, rs, osz, nsz, oi, olast, 
-                                  fbr, hjob, ncreate, pnt, pk, pstart, plen, 
-                                  ppl, pcov, pn, pg, stack, kind, tv, gsz, lg, 
-                                  lsz, lcnt, csz, cg, hsz, ksz, i, op, n, sz, 
-                                  g, nchk, res, hn, hg, cur >>
+                  /\ UNCHANGED << mem, sb, mutex, gpw, gps, cs, online, goff, 
+                                  held, wq, htAlive, destroying, items, 
+                                  growMax, done, errA, rv, ra, rb, rs, osz, 
+                                  nsz, oi, olast, fbr, hjob, ncreate, pnt, pk, 
+                                  pstart, plen, ppl, pcov, pn, pg, stack, kind, 
+                                  tv, gsz, lg, lsz, lcnt, csz, cg, hsz, ksz, i, 
+                                  op, n, sz, g, nchk, res, woff, hn, hg, cur >>
 
 dr_st_ri0(self) == /\ pc[self] = "dr_st_ri0"
                    /\ IF TSO
@@ -1172,13 +1227,14 @@ dr_st_ri0(self) == /\ pc[self] = "dr_st_ri0"
                    /\ acc' = Ev(self, "st", "resize_initiated", 0, 0, 0)
                    /\ errA' = Alive("st:" \o "resize_initiated")
                    /\ pc' = [pc EXCEPT ![self] = "dr_mb"]
-                   /\ UNCHANGED << mutex, alloc, gpok, gpw, gps, cs, held, wq, 
-                                   htAlive, destroying, items, growMax, done, 
-                                   err, rv, ra, rb, rs, osz, nsz, oi, olast, 
-                                   fbr, hjob, ncreate, pnt, pk, pstart, plen, 
-                                   ppl, pcov, pn, pg, stack, kind, tv, gsz, lg, 
-                                   lsz, lcnt, csz, cg, hsz, ksz, i, op, n, sz, 
-                                   g, nchk, res, hn, hg, cur >>
+                   /\ UNCHANGED << mutex, alloc, gpok, gpw, gps, cs, online, 
+                                   goff, held, wq, htAlive, destroying, items, 
+                                   growMax, done, err, rv, ra, rb, rs, osz, 
+                                   nsz, oi, olast, fbr, hjob, ncreate, pnt, pk, 
+                                   pstart, plen, ppl, pcov, pn, pg, stack, 
+                                   kind, tv, gsz, lg, lsz, lcnt, csz, cg, hsz, 
+                                   ksz, i, op, n, sz, g, nchk, res, woff, hn, 
+                                   hg, cur >>
 
 dr_mb(self) == /\ pc[self] = "dr_mb"
                /\ IF "no_mb" \notin Mut
@@ -1187,13 +1243,13 @@ dr_mb(self) == /\ pc[self] = "dr_mb"
                      ELSE /\ TRUE
                           /\ acc' = acc
                /\ pc' = [pc EXCEPT ![self] = "dr_ld_tgt2"]
-               /\ UNCHANGED << mem, sb, mutex, alloc, gpok, gpw, gps, cs, held, 
-                               wq, htAlive, destroying, items, growMax, done, 
-                               err, errA, rv, ra, rb, rs, osz, nsz, oi, olast, 
-                               fbr, hjob, ncreate, pnt, pk, pstart, plen, ppl, 
-                               pcov, pn, pg, stack, kind, tv, gsz, lg, lsz, 
-                               lcnt, csz, cg, hsz, ksz, i, op, n, sz, g, nchk, 
-                               res, hn, hg, cur >>
+               /\ UNCHANGED << mem, sb, mutex, alloc, gpok, gpw, gps, cs, 
+                               online, goff, held, wq, htAlive, destroying, 
+                               items, growMax, done, err, errA, rv, ra, rb, rs, 
+                               osz, nsz, oi, olast, fbr, hjob, ncreate, pnt, 
+                               pk, pstart, plen, ppl, pcov, pn, pg, stack, 
+                               kind, tv, gsz, lg, lsz, lcnt, csz, cg, hsz, ksz, 
+                               i, op, n, sz, g, nchk, res, woff, hn, hg, cur >>
 
 dr_ld_tgt2(self) == /\ pc[self] = "dr_ld_tgt2"
                     /\ ra' = [ra EXCEPT ![self] = Rd(self, "resize_target")]
@@ -1205,12 +1261,13 @@ dr_ld_tgt2(self) == /\ pc[self] = "dr_ld_tgt2"
                           ELSE /\ pc' = [pc EXCEPT ![self] = Head(stack[self]).pc]
                                /\ stack' = [stack EXCEPT ![self] = Tail(stack[self])]
                     /\ UNCHANGED << mem, sb, mutex, alloc, gpok, gpw, gps, cs, 
-                                    held, wq, htAlive, destroying, items, 
-                                    growMax, done, err, rv, rb, rs, osz, nsz, 
-                                    oi, olast, fbr, hjob, ncreate, pnt, pk, 
-                                    pstart, plen, ppl, pcov, pn, pg, kind, tv, 
-                                    gsz, lg, lsz, lcnt, csz, cg, hsz, ksz, i, 
-                                    op, n, sz, g, nchk, res, hn, hg, cur >>
+                                    online, goff, held, wq, htAlive, 
+                                    destroying, items, growMax, done, err, rv, 
+                                    rb, rs, osz, nsz, oi, olast, fbr, hjob, 
+                                    ncreate, pnt, pk, pstart, plen, ppl, pcov, 
+                                    pn, pg, kind, tv, gsz, lg, lsz, lcnt, csz, 
+                                    cg, hsz, ksz, i, op, n, sz, g, nchk, res, 
+                                    woff, hn, hg, cur >>
 
 do_resize(self) == dr_ld_ipd(self) \/ dr_st_ri1(self) \/ dr_ld_tgt(self)
                       \/ it_loop(self) \/ it_ld_tgt(self) \/ it_alloc(self)
@@ -1231,13 +1288,13 @@ tg_ld(self) == /\ pc[self] = "tg_ld"
                /\ IF ra'[self] >= tv[self]
                      THEN /\ pc' = [pc EXCEPT ![self] = "tg_mb"]
                      ELSE /\ pc' = [pc EXCEPT ![self] = "tg_cas"]
-               /\ UNCHANGED << mem, sb, mutex, alloc, gpok, gpw, gps, cs, held, 
-                               wq, htAlive, destroying, items, growMax, done, 
-                               err, rv, rb, rs, osz, nsz, oi, olast, fbr, hjob, 
-                               ncreate, pnt, pk, pstart, plen, ppl, pcov, pn, 
-                               pg, stack, kind, tv, gsz, lg, lsz, lcnt, csz, 
-                               cg, hsz, ksz, i, op, n, sz, g, nchk, res, hn, 
-                               hg, cur >>
+               /\ UNCHANGED << mem, sb, mutex, alloc, gpok, gpw, gps, cs, 
+                               online, goff, held, wq, htAlive, destroying, 
+                               items, growMax, done, err, rv, rb, rs, osz, nsz, 
+                               oi, olast, fbr, hjob, ncreate, pnt, pk, pstart, 
+                               plen, ppl, pcov, pn, pg, stack, kind, tv, gsz, 
+                               lg, lsz, lcnt, csz, cg, hsz, ksz, i, op, n, sz, 
+                               g, nchk, res, woff, hn, hg, cur >>
 
 tg_mb(self) == /\ pc[self] = "tg_mb"
                /\ Drained(self)
@@ -1247,12 +1304,13 @@ tg_mb(self) == /\ pc[self] = "tg_mb"
                /\ pc' = [pc EXCEPT ![self] = Head(stack[self]).pc]
                /\ tv' = [tv EXCEPT ![self] = Head(stack[self]).tv]
                /\ stack' = [stack EXCEPT ![self] = Tail(stack[self])]
-               /\ UNCHANGED << mem, sb, mutex, alloc, gpok, gpw, gps, cs, held, 
-                               wq, htAlive, destroying, items, done, err, errA, 
-                               ra, rb, rs, osz, nsz, oi, olast, fbr, hjob, 
-                               ncreate, pnt, pk, pstart, plen, ppl, pcov, pn, 
-                               pg, kind, gsz, lg, lsz, lcnt, csz, cg, hsz, ksz, 
-                               i, op, n, sz, g, nchk, res, hn, hg, cur >>
+               /\ UNCHANGED << mem, sb, mutex, alloc, gpok, gpw, gps, cs, 
+                               online, goff, held, wq, htAlive, destroying, 
+                               items, done, err, errA, ra, rb, rs, osz, nsz, 
+                               oi, olast, fbr, hjob, ncreate, pnt, pk, pstart, 
+                               plen, ppl, pcov, pn, pg, kind, gsz, lg, lsz, 
+                               lcnt, csz, cg, hsz, ksz, i, op, n, sz, g, nchk, 
+                               res, woff, hn, hg, cur >>
 
 tg_cas(self) == /\ pc[self] = "tg_cas"
                 /\ Drained(self)
@@ -1275,12 +1333,13 @@ tg_cas(self) == /\ pc[self] = "tg_cas"
                                  THEN /\ pc' = [pc EXCEPT ![self] = "tg_mb"]
                                  ELSE /\ pc' = [pc EXCEPT ![self] = "tg_cas"]
                            /\ UNCHANGED << growMax, rv, stack, tv >>
-                /\ UNCHANGED << sb, mutex, alloc, gpok, gpw, gps, cs, held, wq, 
-                                htAlive, destroying, items, done, err, rs, osz, 
-                                nsz, oi, olast, fbr, hjob, ncreate, pnt, pk, 
-                                pstart, plen, ppl, pcov, pn, pg, kind, gsz, lg, 
-                                lsz, lcnt, csz, cg, hsz, ksz, i, op, n, sz, g, 
-                                nchk, res, hn, hg, cur >>
+                /\ UNCHANGED << sb, mutex, alloc, gpok, gpw, gps, cs, online, 
+                                goff, held, wq, htAlive, destroying, items, 
+                                done, err, rs, osz, nsz, oi, olast, fbr, hjob, 
+                                ncreate, pnt, pk, pstart, plen, ppl, pcov, pn, 
+                                pg, kind, gsz, lg, lsz, lcnt, csz, cg, hsz, 
+                                ksz, i, op, n, sz, g, nchk, res, woff, hn, hg, 
+                                cur >>
 
 target_grow(self) == tg_ld(self) \/ tg_mb(self) \/ tg_cas(self)
 
@@ -1294,12 +1353,12 @@ ll_ld_ri(self) == /\ pc[self] = "ll_ld_ri"
                         ELSE /\ pc' = [pc EXCEPT ![self] = "ll_ld_ipd"]
                              /\ stack' = stack
                   /\ UNCHANGED << mem, sb, mutex, alloc, gpok, gpw, gps, cs, 
-                                  held, wq, htAlive, destroying, items, 
-                                  growMax, done, err, rv, rb, rs, osz, nsz, oi, 
-                                  olast, fbr, hjob, ncreate, pnt, pk, pstart, 
-                                  plen, ppl, pcov, pn, pg, kind, tv, gsz, lg, 
-                                  lsz, lcnt, csz, cg, hsz, ksz, i, op, n, sz, 
-                                  g, nchk, res, hn, hg, cur >>
+                                  online, goff, held, wq, htAlive, destroying, 
+                                  items, growMax, done, err, rv, rb, rs, osz, 
+                                  nsz, oi, olast, fbr, hjob, ncreate, pnt, pk, 
+                                  pstart, plen, ppl, pcov, pn, pg, kind, tv, 
+                                  gsz, lg, lsz, lcnt, csz, cg, hsz, ksz, i, op, 
+                                  n, sz, g, nchk, res, woff, hn, hg, cur >>
 
 ll_ld_ipd(self) == /\ pc[self] = "ll_ld_ipd"
                    /\ IF "no_ipd" \in Mut
@@ -1315,25 +1374,25 @@ ll_ld_ipd(self) == /\ pc[self] = "ll_ld_ipd"
                                     ELSE /\ pc' = [pc EXCEPT ![self] = "ll_walloc"]
                                          /\ stack' = stack
                    /\ UNCHANGED << mem, sb, mutex, alloc, gpok, gpw, gps, cs, 
-                                   held, wq, htAlive, destroying, items, 
-                                   growMax, done, err, rv, rb, rs, osz, nsz, 
-                                   oi, olast, fbr, hjob, ncreate, pnt, pk, 
+                                   online, goff, held, wq, htAlive, destroying, 
+                                   items, growMax, done, err, rv, rb, rs, osz, 
+                                   nsz, oi, olast, fbr, hjob, ncreate, pnt, pk, 
                                    pstart, plen, ppl, pcov, pn, pg, kind, tv, 
                                    gsz, lg, lsz, lcnt, csz, cg, hsz, ksz, i, 
-                                   op, n, sz, g, nchk, res, hn, hg, cur >>
+                                   op, n, sz, g, nchk, res, woff, hn, hg, cur >>
 
 ll_walloc(self) == /\ pc[self] = "ll_walloc"
                    /\ acc' = Ev(self, "walloc", "rw", 0, 0, 0)
                    /\ errA' = Alive("walloc")
                    /\ pc' = [pc EXCEPT ![self] = "ll_queue"]
                    /\ UNCHANGED << mem, sb, mutex, alloc, gpok, gpw, gps, cs, 
-                                   held, wq, htAlive, destroying, items, 
-                                   growMax, done, err, rv, ra, rb, rs, osz, 
-                                   nsz, oi, olast, fbr, hjob, ncreate, pnt, pk, 
-                                   pstart, plen, ppl, pcov, pn, pg, stack, 
-                                   kind, tv, gsz, lg, lsz, lcnt, csz, cg, hsz, 
-                                   ksz, i, op, n, sz, g, nchk, res, hn, hg, 
-                                   cur >>
+                                   online, goff, held, wq, htAlive, destroying, 
+                                   items, growMax, done, err, rv, ra, rb, rs, 
+                                   osz, nsz, oi, olast, fbr, hjob, ncreate, 
+                                   pnt, pk, pstart, plen, ppl, pcov, pn, pg, 
+                                   stack, kind, tv, gsz, lg, lsz, lcnt, csz, 
+                                   cg, hsz, ksz, i, op, n, sz, g, nchk, res, 
+                                   woff, hn, hg, cur >>
 
 ll_queue(self) == /\ pc[self] = "ll_queue"
                   /\ Drained(self)
@@ -1341,12 +1400,13 @@ ll_queue(self) == /\ pc[self] = "ll_queue"
                   /\ acc' = Ev(self, "enq", "rw", 0, 0, 0)
                   /\ pc' = [pc EXCEPT ![self] = "ll_st_ri"]
                   /\ UNCHANGED << mem, sb, mutex, alloc, gpok, gpw, gps, cs, 
-                                  held, htAlive, destroying, items, growMax, 
-                                  done, err, errA, rv, ra, rb, rs, osz, nsz, 
-                                  oi, olast, fbr, hjob, ncreate, pnt, pk, 
-                                  pstart, plen, ppl, pcov, pn, pg, stack, kind, 
-                                  tv, gsz, lg, lsz, lcnt, csz, cg, hsz, ksz, i, 
-                                  op, n, sz, g, nchk, res, hn, hg, cur >>
+                                  online, goff, held, htAlive, destroying, 
+                                  items, growMax, done, err, errA, rv, ra, rb, 
+                                  rs, osz, nsz, oi, olast, fbr, hjob, ncreate, 
+                                  pnt, pk, pstart, plen, ppl, pcov, pn, pg, 
+                                  stack, kind, tv, gsz, lg, lsz, lcnt, csz, cg, 
+                                  hsz, ksz, i, op, n, sz, g, nchk, res, woff, 
+                                  hn, hg, cur >>
 
 ll_st_ri(self) == /\ pc[self] = "ll_st_ri"
                   /\ IF TSO
@@ -1358,13 +1418,13 @@ ll_st_ri(self) == /\ pc[self] = "ll_st_ri"
                   /\ errA' = Alive("st:" \o "resize_initiated")
                   /\ pc' = [pc EXCEPT ![self] = Head(stack[self]).pc]
                   /\ stack' = [stack EXCEPT ![self] = Tail(stack[self])]
-                  /\ UNCHANGED << mutex, alloc, gpok, gpw, gps, cs, held, wq, 
-                                  htAlive, destroying, items, growMax, done, 
-                                  err, rv, ra, rb, rs, osz, nsz, oi, olast, 
-                                  fbr, hjob, ncreate, pnt, pk, pstart, plen, 
-                                  ppl, pcov, pn, pg, kind, tv, gsz, lg, lsz, 
-                                  lcnt, csz, cg, hsz, ksz, i, op, n, sz, g, 
-                                  nchk, res, hn, hg, cur >>
+                  /\ UNCHANGED << mutex, alloc, gpok, gpw, gps, cs, online, 
+                                  goff, held, wq, htAlive, destroying, items, 
+                                  growMax, done, err, rv, ra, rb, rs, osz, nsz, 
+                                  oi, olast, fbr, hjob, ncreate, pnt, pk, 
+                                  pstart, plen, ppl, pcov, pn, pg, kind, tv, 
+                                  gsz, lg, lsz, lcnt, csz, cg, hsz, ksz, i, op, 
+                                  n, sz, g, nchk, res, woff, hn, hg, cur >>
 
 lazy_launch(self) == ll_ld_ri(self) \/ ll_ld_ipd(self) \/ ll_walloc(self)
                         \/ ll_queue(self) \/ ll_st_ri(self)
@@ -1377,12 +1437,12 @@ lg_tg(self) == /\ pc[self] = "lg_tg"
                   /\ tv' = [tv EXCEPT ![self] = Min2(gsz[self] * Pow2(lg[self]), MaxB)]
                /\ pc' = [pc EXCEPT ![self] = "tg_ld"]
                /\ UNCHANGED << mem, sb, mutex, acc, alloc, gpok, gpw, gps, cs, 
-                               held, wq, htAlive, destroying, items, growMax, 
-                               done, err, errA, rv, ra, rb, rs, osz, nsz, oi, 
-                               olast, fbr, hjob, ncreate, pnt, pk, pstart, 
-                               plen, ppl, pcov, pn, pg, kind, gsz, lg, lsz, 
-                               lcnt, csz, cg, hsz, ksz, i, op, n, sz, g, nchk, 
-                               res, hn, hg, cur >>
+                               online, goff, held, wq, htAlive, destroying, 
+                               items, growMax, done, err, errA, rv, ra, rb, rs, 
+                               osz, nsz, oi, olast, fbr, hjob, ncreate, pnt, 
+                               pk, pstart, plen, ppl, pcov, pn, pg, kind, gsz, 
+                               lg, lsz, lcnt, csz, cg, hsz, ksz, i, op, n, sz, 
+                               g, nchk, res, woff, hn, hg, cur >>
 
 lg_chk(self) == /\ pc[self] = "lg_chk"
                 /\ IF rv[self] >= Min2(gsz[self] * Pow2(lg[self]), MaxB)
@@ -1396,12 +1456,12 @@ lg_chk(self) == /\ pc[self] = "lg_chk"
                            /\ pc' = [pc EXCEPT ![self] = "ll_ld_ri"]
                            /\ UNCHANGED << gsz, lg >>
                 /\ UNCHANGED << mem, sb, mutex, acc, alloc, gpok, gpw, gps, cs, 
-                                held, wq, htAlive, destroying, items, growMax, 
-                                done, err, errA, rv, ra, rb, rs, osz, nsz, oi, 
-                                olast, fbr, hjob, ncreate, pnt, pk, pstart, 
-                                plen, ppl, pcov, pn, pg, kind, tv, lsz, lcnt, 
-                                csz, cg, hsz, ksz, i, op, n, sz, g, nchk, res, 
-                                hn, hg, cur >>
+                                online, goff, held, wq, htAlive, destroying, 
+                                items, growMax, done, err, errA, rv, ra, rb, 
+                                rs, osz, nsz, oi, olast, fbr, hjob, ncreate, 
+                                pnt, pk, pstart, plen, ppl, pcov, pn, pg, kind, 
+                                tv, lsz, lcnt, csz, cg, hsz, ksz, i, op, n, sz, 
+                                g, nchk, res, woff, hn, hg, cur >>
 
 lazy_grow(self) == lg_tg(self) \/ lg_chk(self)
 
@@ -1422,12 +1482,12 @@ lc_top(self) == /\ pc[self] = "lc_top"
                                             ELSE /\ pc' = [pc EXCEPT ![self] = "lc_grow"]
                                       /\ UNCHANGED << stack, lsz, lcnt >>
                 /\ UNCHANGED << mem, sb, mutex, acc, alloc, gpok, gpw, gps, cs, 
-                                held, wq, htAlive, destroying, items, growMax, 
-                                done, err, errA, rv, ra, rb, osz, nsz, oi, 
-                                olast, fbr, hjob, ncreate, pnt, pk, pstart, 
-                                plen, ppl, pcov, pn, pg, kind, tv, gsz, lg, 
-                                csz, cg, hsz, ksz, i, op, n, sz, g, nchk, res, 
-                                hn, hg, cur >>
+                                online, goff, held, wq, htAlive, destroying, 
+                                items, growMax, done, err, errA, rv, ra, rb, 
+                                osz, nsz, oi, olast, fbr, hjob, ncreate, pnt, 
+                                pk, pstart, plen, ppl, pcov, pn, pg, kind, tv, 
+                                gsz, lg, csz, cg, hsz, ksz, i, op, n, sz, g, 
+                                nchk, res, woff, hn, hg, cur >>
 
 lc_grow(self) == /\ pc[self] = "lc_grow"
                  /\ /\ stack' = [stack EXCEPT ![self] = << [ procedure |->  "target_grow",
@@ -1437,12 +1497,13 @@ lc_grow(self) == /\ pc[self] = "lc_grow"
                     /\ tv' = [tv EXCEPT ![self] = ClampC(lcnt[self])]
                  /\ pc' = [pc EXCEPT ![self] = "tg_ld"]
                  /\ UNCHANGED << mem, sb, mutex, acc, alloc, gpok, gpw, gps, 
-                                 cs, held, wq, htAlive, destroying, items, 
-                                 growMax, done, err, errA, rv, ra, rb, rs, osz, 
-                                 nsz, oi, olast, fbr, hjob, ncreate, pnt, pk, 
-                                 pstart, plen, ppl, pcov, pn, pg, kind, gsz, 
-                                 lg, lsz, lcnt, csz, cg, hsz, ksz, i, op, n, 
-                                 sz, g, nchk, res, hn, hg, cur >>
+                                 cs, online, goff, held, wq, htAlive, 
+                                 destroying, items, growMax, done, err, errA, 
+                                 rv, ra, rb, rs, osz, nsz, oi, olast, fbr, 
+                                 hjob, ncreate, pnt, pk, pstart, plen, ppl, 
+                                 pcov, pn, pg, kind, gsz, lg, lsz, lcnt, csz, 
+                                 cg, hsz, ksz, i, op, n, sz, g, nchk, res, 
+                                 woff, hn, hg, cur >>
 
 lc_gchk(self) == /\ pc[self] = "lc_gchk"
                  /\ IF rv[self] >= ClampC(lcnt[self])
@@ -1453,12 +1514,13 @@ lc_gchk(self) == /\ pc[self] = "lc_gchk"
                        ELSE /\ pc' = [pc EXCEPT ![self] = "lc_launch"]
                             /\ UNCHANGED << stack, lsz, lcnt >>
                  /\ UNCHANGED << mem, sb, mutex, acc, alloc, gpok, gpw, gps, 
-                                 cs, held, wq, htAlive, destroying, items, 
-                                 growMax, done, err, errA, rv, ra, rb, rs, osz, 
-                                 nsz, oi, olast, fbr, hjob, ncreate, pnt, pk, 
-                                 pstart, plen, ppl, pcov, pn, pg, kind, tv, 
-                                 gsz, lg, csz, cg, hsz, ksz, i, op, n, sz, g, 
-                                 nchk, res, hn, hg, cur >>
+                                 cs, online, goff, held, wq, htAlive, 
+                                 destroying, items, growMax, done, err, errA, 
+                                 rv, ra, rb, rs, osz, nsz, oi, olast, fbr, 
+                                 hjob, ncreate, pnt, pk, pstart, plen, ppl, 
+                                 pcov, pn, pg, kind, tv, gsz, lg, csz, cg, hsz, 
+                                 ksz, i, op, n, sz, g, nchk, res, woff, hn, hg, 
+                                 cur >>
 
 lc_cas(self) == /\ pc[self] = "lc_cas"
                 /\ Drained(self)
@@ -1488,12 +1550,13 @@ lc_cas(self) == /\ pc[self] = "lc_cas"
                                                  /\ pc' = [pc EXCEPT ![self] = "lc_cas"]
                                                  /\ UNCHANGED << stack, lsz, 
                                                                  lcnt >>
-                /\ UNCHANGED << sb, mutex, alloc, gpok, gpw, gps, cs, held, wq, 
-                                htAlive, destroying, items, growMax, done, err, 
-                                rv, ra, osz, nsz, oi, olast, fbr, hjob, 
-                                ncreate, pnt, pk, pstart, plen, ppl, pcov, pn, 
-                                pg, kind, tv, gsz, lg, csz, cg, hsz, ksz, i, 
-                                op, n, sz, g, nchk, res, hn, hg, cur >>
+                /\ UNCHANGED << sb, mutex, alloc, gpok, gpw, gps, cs, online, 
+                                goff, held, wq, htAlive, destroying, items, 
+                                growMax, done, err, rv, ra, osz, nsz, oi, 
+                                olast, fbr, hjob, ncreate, pnt, pk, pstart, 
+                                plen, ppl, pcov, pn, pg, kind, tv, gsz, lg, 
+                                csz, cg, hsz, ksz, i, op, n, sz, g, nchk, res, 
+                                woff, hn, hg, cur >>
 
 lc_launch(self) == /\ pc[self] = "lc_launch"
                    /\ stack' = [stack EXCEPT ![self] = << [ procedure |->  "lazy_launch",
@@ -1501,13 +1564,13 @@ lc_launch(self) == /\ pc[self] = "lc_launch"
                                                         \o Tail(stack[self])]
                    /\ pc' = [pc EXCEPT ![self] = "ll_ld_ri"]
                    /\ UNCHANGED << mem, sb, mutex, acc, alloc, gpok, gpw, gps, 
-                                   cs, held, wq, htAlive, destroying, items, 
-                                   growMax, done, err, errA, rv, ra, rb, rs, 
-                                   osz, nsz, oi, olast, fbr, hjob, ncreate, 
-                                   pnt, pk, pstart, plen, ppl, pcov, pn, pg, 
-                                   kind, tv, gsz, lg, lsz, lcnt, csz, cg, hsz, 
-                                   ksz, i, op, n, sz, g, nchk, res, hn, hg, 
-                                   cur >>
+                                   cs, online, goff, held, wq, htAlive, 
+                                   destroying, items, growMax, done, err, errA, 
+                                   rv, ra, rb, rs, osz, nsz, oi, olast, fbr, 
+                                   hjob, ncreate, pnt, pk, pstart, plen, ppl, 
+                                   pcov, pn, pg, kind, tv, gsz, lg, lsz, lcnt, 
+                                   csz, cg, hsz, ksz, i, op, n, sz, g, nchk, 
+                                   res, woff, hn, hg, cur >>
 
 lazy_count(self) == lc_top(self) \/ lc_grow(self) \/ lc_gchk(self)
                        \/ lc_cas(self) \/ lc_launch(self)
@@ -1548,12 +1611,13 @@ cr_ld_count(self) == /\ pc[self] = "cr_ld_count"
                                            /\ pc' = [pc EXCEPT ![self] = "lg_tg"]
                                            /\ UNCHANGED << csz, cg >>
                      /\ UNCHANGED << mem, sb, mutex, alloc, gpok, gpw, gps, cs, 
-                                     held, wq, htAlive, destroying, items, 
-                                     growMax, done, err, rv, rb, rs, osz, nsz, 
-                                     oi, olast, fbr, hjob, ncreate, pnt, pk, 
-                                     pstart, plen, ppl, pcov, pn, pg, kind, tv, 
-                                     lsz, lcnt, hsz, ksz, i, op, n, sz, g, 
-                                     nchk, res, hn, hg, cur >>
+                                     online, goff, held, wq, htAlive, 
+                                     destroying, items, growMax, done, err, rv, 
+                                     rb, rs, osz, nsz, oi, olast, fbr, hjob, 
+                                     ncreate, pnt, pk, pstart, plen, ppl, pcov, 
+                                     pn, pg, kind, tv, lsz, lcnt, hsz, ksz, i, 
+                                     op, n, sz, g, nchk, res, woff, hn, hg, 
+                                     cur >>
 
 check_resize(self) == cr_ld_count(self)
 
@@ -1574,12 +1638,13 @@ ca_add(self) == /\ pc[self] = "ca_add"
                                       /\ stack' = [stack EXCEPT ![self] = Tail(stack[self])]
                                  ELSE /\ pc' = [pc EXCEPT ![self] = "ca_cnt"]
                                       /\ UNCHANGED << stack, hsz >>
-                /\ UNCHANGED << sb, mutex, alloc, gpok, gpw, gps, cs, held, wq, 
-                                htAlive, destroying, items, growMax, done, err, 
-                                rv, rb, rs, osz, nsz, oi, olast, fbr, hjob, 
-                                ncreate, pnt, pk, pstart, plen, ppl, pcov, pn, 
-                                pg, kind, tv, gsz, lg, lsz, lcnt, csz, cg, ksz, 
-                                i, op, n, sz, g, nchk, res, hn, hg, cur >>
+                /\ UNCHANGED << sb, mutex, alloc, gpok, gpw, gps, cs, online, 
+                                goff, held, wq, htAlive, destroying, items, 
+                                growMax, done, err, rv, rb, rs, osz, nsz, oi, 
+                                olast, fbr, hjob, ncreate, pnt, pk, pstart, 
+                                plen, ppl, pcov, pn, pg, kind, tv, gsz, lg, 
+                                lsz, lcnt, csz, cg, ksz, i, op, n, sz, g, nchk, 
+                                res, woff, hn, hg, cur >>
 
 ca_cnt(self) == /\ pc[self] = "ca_cnt"
                 /\ Drained(self)
@@ -1606,12 +1671,13 @@ ca_cnt(self) == /\ pc[self] = "ca_cnt"
                                                                               \o Tail(stack[self])]
                                       /\ pc' = [pc EXCEPT ![self] = "lc_top"]
                                       /\ hsz' = hsz
-                /\ UNCHANGED << sb, mutex, alloc, gpok, gpw, gps, cs, held, wq, 
-                                htAlive, destroying, items, growMax, done, err, 
-                                rv, rb, rs, osz, nsz, oi, olast, fbr, hjob, 
-                                ncreate, pnt, pk, pstart, plen, ppl, pcov, pn, 
-                                pg, kind, tv, gsz, lg, csz, cg, ksz, i, op, n, 
-                                sz, g, nchk, res, hn, hg, cur >>
+                /\ UNCHANGED << sb, mutex, alloc, gpok, gpw, gps, cs, online, 
+                                goff, held, wq, htAlive, destroying, items, 
+                                growMax, done, err, rv, rb, rs, osz, nsz, oi, 
+                                olast, fbr, hjob, ncreate, pnt, pk, pstart, 
+                                plen, ppl, pcov, pn, pg, kind, tv, gsz, lg, 
+                                csz, cg, ksz, i, op, n, sz, g, nchk, res, woff, 
+                                hn, hg, cur >>
 
 ht_count_add(self) == ca_add(self) \/ ca_cnt(self)
 
@@ -1632,12 +1698,13 @@ cd_del(self) == /\ pc[self] = "cd_del"
                                       /\ stack' = [stack EXCEPT ![self] = Tail(stack[self])]
                                  ELSE /\ pc' = [pc EXCEPT ![self] = "cd_cnt"]
                                       /\ UNCHANGED << stack, ksz >>
-                /\ UNCHANGED << sb, mutex, alloc, gpok, gpw, gps, cs, held, wq, 
-                                htAlive, destroying, items, growMax, done, err, 
-                                rv, rb, rs, osz, nsz, oi, olast, fbr, hjob, 
-                                ncreate, pnt, pk, pstart, plen, ppl, pcov, pn, 
-                                pg, kind, tv, gsz, lg, lsz, lcnt, csz, cg, hsz, 
-                                i, op, n, sz, g, nchk, res, hn, hg, cur >>
+                /\ UNCHANGED << sb, mutex, alloc, gpok, gpw, gps, cs, online, 
+                                goff, held, wq, htAlive, destroying, items, 
+                                growMax, done, err, rv, rb, rs, osz, nsz, oi, 
+                                olast, fbr, hjob, ncreate, pnt, pk, pstart, 
+                                plen, ppl, pcov, pn, pg, kind, tv, gsz, lg, 
+                                lsz, lcnt, csz, cg, hsz, i, op, n, sz, g, nchk, 
+                                res, woff, hn, hg, cur >>
 
 cd_cnt(self) == /\ pc[self] = "cd_cnt"
                 /\ Drained(self)
@@ -1669,12 +1736,13 @@ cd_cnt(self) == /\ pc[self] = "cd_cnt"
                                                                                          \o Tail(stack[self])]
                                                  /\ pc' = [pc EXCEPT ![self] = "lc_top"]
                                                  /\ ksz' = ksz
-                /\ UNCHANGED << sb, mutex, alloc, gpok, gpw, gps, cs, held, wq, 
-                                htAlive, destroying, items, growMax, done, err, 
-                                rv, rb, rs, osz, nsz, oi, olast, fbr, hjob, 
-                                ncreate, pnt, pk, pstart, plen, ppl, pcov, pn, 
-                                pg, kind, tv, gsz, lg, csz, cg, hsz, i, op, n, 
-                                sz, g, nchk, res, hn, hg, cur >>
+                /\ UNCHANGED << sb, mutex, alloc, gpok, gpw, gps, cs, online, 
+                                goff, held, wq, htAlive, destroying, items, 
+                                growMax, done, err, rv, rb, rs, osz, nsz, oi, 
+                                olast, fbr, hjob, ncreate, pnt, pk, pstart, 
+                                plen, ppl, pcov, pn, pg, kind, tv, gsz, lg, 
+                                csz, cg, hsz, i, op, n, sz, g, nchk, res, woff, 
+                                hn, hg, cur >>
 
 ht_count_del(self) == cd_del(self) \/ cd_cnt(self)
 
@@ -1690,11 +1758,12 @@ db_chk(self) == /\ pc[self] = "db_chk"
                            /\ pc' = [pc EXCEPT ![self] = "db_free"]
                            /\ UNCHANGED << rv, stack >>
                 /\ UNCHANGED << mem, sb, mutex, acc, alloc, gpok, gpw, gps, cs, 
-                                held, wq, htAlive, items, growMax, done, err, 
-                                ra, rb, rs, osz, nsz, olast, fbr, hjob, 
-                                ncreate, pnt, pk, pstart, plen, ppl, pcov, pn, 
-                                pg, kind, tv, gsz, lg, lsz, lcnt, csz, cg, hsz, 
-                                ksz, i, op, n, sz, g, nchk, res, hn, hg, cur >>
+                                online, goff, held, wq, htAlive, items, 
+                                growMax, done, err, ra, rb, rs, osz, nsz, 
+                                olast, fbr, hjob, ncreate, pnt, pk, pstart, 
+                                plen, ppl, pcov, pn, pg, kind, tv, gsz, lg, 
+                                lsz, lcnt, csz, cg, hsz, ksz, i, op, n, sz, g, 
+                                nchk, res, woff, hn, hg, cur >>
 
 db_free(self) == /\ pc[self] = "db_free"
                  /\ IF oi[self] >= 0
@@ -1708,13 +1777,13 @@ db_free(self) == /\ pc[self] = "db_free"
                             /\ pc' = [pc EXCEPT ![self] = Head(stack[self]).pc]
                             /\ stack' = [stack EXCEPT ![self] = Tail(stack[self])]
                             /\ UNCHANGED << acc, alloc, err, oi >>
-                 /\ UNCHANGED << mem, sb, mutex, gpok, gpw, gps, cs, held, wq, 
-                                 htAlive, destroying, items, growMax, done, 
-                                 errA, ra, rb, rs, osz, nsz, olast, fbr, hjob, 
-                                 ncreate, pnt, pk, pstart, plen, ppl, pcov, pn, 
-                                 pg, kind, tv, gsz, lg, lsz, lcnt, csz, cg, 
-                                 hsz, ksz, i, op, n, sz, g, nchk, res, hn, hg, 
-                                 cur >>
+                 /\ UNCHANGED << mem, sb, mutex, gpok, gpw, gps, cs, online, 
+                                 goff, held, wq, htAlive, destroying, items, 
+                                 growMax, done, errA, ra, rb, rs, osz, nsz, 
+                                 olast, fbr, hjob, ncreate, pnt, pk, pstart, 
+                                 plen, ppl, pcov, pn, pg, kind, tv, gsz, lg, 
+                                 lsz, lcnt, csz, cg, hsz, ksz, i, op, n, sz, g, 
+                                 nchk, res, woff, hn, hg, cur >>
 
 delete_bucket(self) == db_chk(self) \/ db_free(self)
 
@@ -1725,15 +1794,26 @@ fl(self) == /\ pc[self] = "fl"
                /\ mem' = [mem EXCEPT ![Head(sb[FlOf[self]])[1]] = Head(sb[FlOf[self]])[2]]
                /\ sb' = [sb EXCEPT ![FlOf[self]] = Tail(sb[FlOf[self]])]
             /\ pc' = [pc EXCEPT ![self] = "fl"]
-            /\ UNCHANGED << mutex, alloc, gpok, gpw, gps, cs, held, wq, 
-                            htAlive, destroying, items, growMax, done, err, 
-                            errA, rv, ra, rb, rs, osz, nsz, oi, olast, fbr, 
-                            hjob, ncreate, pnt, pk, pstart, plen, ppl, pcov, 
-                            pn, pg, stack, kind, tv, gsz, lg, lsz, lcnt, csz, 
-                            cg, hsz, ksz, i, op, n, sz, g, nchk, res, hn, hg, 
-                            cur >>
+            /\ UNCHANGED << mutex, alloc, gpok, gpw, gps, cs, online, goff, 
+                            held, wq, htAlive, destroying, items, growMax, 
+                            done, err, errA, rv, ra, rb, rs, osz, nsz, oi, 
+                            olast, fbr, hjob, ncreate, pnt, pk, pstart, plen, 
+                            ppl, pcov, pn, pg, stack, kind, tv, gsz, lg, lsz, 
+                            lcnt, csz, cg, hsz, ksz, i, op, n, sz, g, nchk, 
+                            res, woff, hn, hg, cur >>
 
 flusher(self) == fl(self)
+
+t_reg(self) == /\ pc[self] = "t_reg"
+               /\ online' = [online EXCEPT ![self] = Qsbr]
+               /\ pc' = [pc EXCEPT ![self] = "t_top"]
+               /\ UNCHANGED << mem, sb, mutex, acc, alloc, gpok, gpw, gps, cs, 
+                               goff, held, wq, htAlive, destroying, items, 
+                               growMax, done, err, errA, rv, ra, rb, rs, osz, 
+                               nsz, oi, olast, fbr, hjob, ncreate, pnt, pk, 
+                               pstart, plen, ppl, pcov, pn, pg, stack, kind, 
+                               tv, gsz, lg, lsz, lcnt, csz, cg, hsz, ksz, i, 
+                               op, n, sz, g, nchk, res, woff, hn, hg, cur >>
 
 t_top(self) == /\ pc[self] = "t_top"
                /\ IF i[self] <= Len(Prog[self])
@@ -1759,12 +1839,13 @@ t_top(self) == /\ pc[self] = "t_top"
                                      /\ n' = n
                      ELSE /\ pc' = [pc EXCEPT ![self] = "t_fin"]
                           /\ UNCHANGED << acc, op, n, nchk, res >>
-               /\ UNCHANGED << mem, sb, mutex, alloc, gpok, gpw, gps, cs, held, 
-                               wq, htAlive, destroying, items, growMax, done, 
-                               err, errA, rv, ra, rb, rs, osz, nsz, oi, olast, 
-                               fbr, hjob, ncreate, pnt, pk, pstart, plen, ppl, 
-                               pcov, pn, pg, stack, kind, tv, gsz, lg, lsz, 
-                               lcnt, csz, cg, hsz, ksz, i, sz, g, hn, hg, cur >>
+               /\ UNCHANGED << mem, sb, mutex, alloc, gpok, gpw, gps, cs, 
+                               online, goff, held, wq, htAlive, destroying, 
+                               items, growMax, done, err, errA, rv, ra, rb, rs, 
+                               osz, nsz, oi, olast, fbr, hjob, ncreate, pnt, 
+                               pk, pstart, plen, ppl, pcov, pn, pg, stack, 
+                               kind, tv, gsz, lg, lsz, lcnt, csz, cg, hsz, ksz, 
+                               i, sz, g, woff, hn, hg, cur >>
 
 rs_tgt(self) == /\ pc[self] = "rs_tgt"
                 /\ IF TSO
@@ -1775,13 +1856,13 @@ rs_tgt(self) == /\ pc[self] = "rs_tgt"
                 /\ acc' = Ev(self, "st", "resize_target", (ClampR(n[self])), 0, 0)
                 /\ errA' = Alive("st:" \o "resize_target")
                 /\ pc' = [pc EXCEPT ![self] = "rs_st_ri"]
-                /\ UNCHANGED << mutex, alloc, gpok, gpw, gps, cs, held, wq, 
-                                htAlive, destroying, items, growMax, done, err, 
-                                rv, ra, rb, rs, osz, nsz, oi, olast, fbr, hjob, 
-                                ncreate, pnt, pk, pstart, plen, ppl, pcov, pn, 
-                                pg, stack, kind, tv, gsz, lg, lsz, lcnt, csz, 
-                                cg, hsz, ksz, i, op, n, sz, g, nchk, res, hn, 
-                                hg, cur >>
+                /\ UNCHANGED << mutex, alloc, gpok, gpw, gps, cs, online, goff, 
+                                held, wq, htAlive, destroying, items, growMax, 
+                                done, err, rv, ra, rb, rs, osz, nsz, oi, olast, 
+                                fbr, hjob, ncreate, pnt, pk, pstart, plen, ppl, 
+                                pcov, pn, pg, stack, kind, tv, gsz, lg, lsz, 
+                                lcnt, csz, cg, hsz, ksz, i, op, n, sz, g, nchk, 
+                                res, woff, hn, hg, cur >>
 
 rs_st_ri(self) == /\ pc[self] = "rs_st_ri"
                   /\ IF TSO
@@ -1791,28 +1872,60 @@ rs_st_ri(self) == /\ pc[self] = "rs_st_ri"
                              /\ sb' = sb
                   /\ acc' = Ev(self, "st", "resize_initiated", 1, 0, 0)
                   /\ errA' = Alive("st:" \o "resize_initiated")
-                  /\ pc' = [pc EXCEPT ![self] = "rs_lock"]
-                  /\ UNCHANGED << mutex, alloc, gpok, gpw, gps, cs, held, wq, 
-                                  htAlive, destroying, items, growMax, done, 
-                                  err, rv, ra, rb, rs, osz, nsz, oi, olast, 
-                                  fbr, hjob, ncreate, pnt, pk, pstart, plen, 
-                                  ppl, pcov, pn, pg, stack, kind, tv, gsz, lg, 
-                                  lsz, lcnt, csz, cg, hsz, ksz, i, op, n, sz, 
-                                  g, nchk, res, hn, hg, cur >>
+                  /\ pc' = [pc EXCEPT ![self] = "rs_off"]
+                  /\ UNCHANGED << mutex, alloc, gpok, gpw, gps, cs, online, 
+                                  goff, held, wq, htAlive, destroying, items, 
+                                  growMax, done, err, rv, ra, rb, rs, osz, nsz, 
+                                  oi, olast, fbr, hjob, ncreate, pnt, pk, 
+                                  pstart, plen, ppl, pcov, pn, pg, stack, kind, 
+                                  tv, gsz, lg, lsz, lcnt, csz, cg, hsz, ksz, i, 
+                                  op, n, sz, g, nchk, res, woff, hn, hg, cur >>
+
+rs_off(self) == /\ pc[self] = "rs_off"
+                /\ IF online[self] /\ "on_lock" \notin Mut
+                      THEN /\ woff' = [woff EXCEPT ![self] = TRUE]
+                           /\ online' = [online EXCEPT ![self] = FALSE]
+                           /\ gpw' = [p \in Procs |-> IF cs[self] THEN gpw[p] ELSE gpw[p] \ {self}]
+                           /\ acc' = Ev(self, "offline", "-", 0, 0, 0)
+                      ELSE /\ woff' = [woff EXCEPT ![self] = FALSE]
+                           /\ UNCHANGED << acc, gpw, online >>
+                /\ pc' = [pc EXCEPT ![self] = "rs_lock"]
+                /\ UNCHANGED << mem, sb, mutex, alloc, gpok, gps, cs, goff, 
+                                held, wq, htAlive, destroying, items, growMax, 
+                                done, err, errA, rv, ra, rb, rs, osz, nsz, oi, 
+                                olast, fbr, hjob, ncreate, pnt, pk, pstart, 
+                                plen, ppl, pcov, pn, pg, stack, kind, tv, gsz, 
+                                lg, lsz, lcnt, csz, cg, hsz, ksz, i, op, n, sz, 
+                                g, nchk, res, hn, hg, cur >>
 
 rs_lock(self) == /\ pc[self] = "rs_lock"
                  /\ Drained(self) /\ mutex = "free"
                  /\ mutex' = self
                  /\ acc' = Ev(self, "lock", "resize_mutex", 0, 0, 0)
                  /\ errA' = Alive("lock")
-                 /\ pc' = [pc EXCEPT ![self] = "rs_do"]
-                 /\ UNCHANGED << mem, sb, alloc, gpok, gpw, gps, cs, held, wq, 
-                                 htAlive, destroying, items, growMax, done, 
-                                 err, rv, ra, rb, rs, osz, nsz, oi, olast, fbr, 
-                                 hjob, ncreate, pnt, pk, pstart, plen, ppl, 
-                                 pcov, pn, pg, stack, kind, tv, gsz, lg, lsz, 
-                                 lcnt, csz, cg, hsz, ksz, i, op, n, sz, g, 
-                                 nchk, res, hn, hg, cur >>
+                 /\ pc' = [pc EXCEPT ![self] = "rs_on"]
+                 /\ UNCHANGED << mem, sb, alloc, gpok, gpw, gps, cs, online, 
+                                 goff, held, wq, htAlive, destroying, items, 
+                                 growMax, done, err, rv, ra, rb, rs, osz, nsz, 
+                                 oi, olast, fbr, hjob, ncreate, pnt, pk, 
+                                 pstart, plen, ppl, pcov, pn, pg, stack, kind, 
+                                 tv, gsz, lg, lsz, lcnt, csz, cg, hsz, ksz, i, 
+                                 op, n, sz, g, nchk, res, woff, hn, hg, cur >>
+
+rs_on(self) == /\ pc[self] = "rs_on"
+               /\ IF woff[self]
+                     THEN /\ online' = [online EXCEPT ![self] = Qsbr]
+                          /\ acc' = Ev(self, "online", "-", 0, 0, 0)
+                     ELSE /\ TRUE
+                          /\ UNCHANGED << acc, online >>
+               /\ pc' = [pc EXCEPT ![self] = "rs_do"]
+               /\ UNCHANGED << mem, sb, mutex, alloc, gpok, gpw, gps, cs, goff, 
+                               held, wq, htAlive, destroying, items, growMax, 
+                               done, err, errA, rv, ra, rb, rs, osz, nsz, oi, 
+                               olast, fbr, hjob, ncreate, pnt, pk, pstart, 
+                               plen, ppl, pcov, pn, pg, stack, kind, tv, gsz, 
+                               lg, lsz, lcnt, csz, cg, hsz, ksz, i, op, n, sz, 
+                               g, nchk, res, woff, hn, hg, cur >>
 
 rs_do(self) == /\ pc[self] = "rs_do"
                /\ stack' = [stack EXCEPT ![self] = << [ procedure |->  "do_resize",
@@ -1820,12 +1933,12 @@ rs_do(self) == /\ pc[self] = "rs_do"
                                                     \o stack[self]]
                /\ pc' = [pc EXCEPT ![self] = "dr_ld_ipd"]
                /\ UNCHANGED << mem, sb, mutex, acc, alloc, gpok, gpw, gps, cs, 
-                               held, wq, htAlive, destroying, items, growMax, 
-                               done, err, errA, rv, ra, rb, rs, osz, nsz, oi, 
-                               olast, fbr, hjob, ncreate, pnt, pk, pstart, 
-                               plen, ppl, pcov, pn, pg, kind, tv, gsz, lg, lsz, 
-                               lcnt, csz, cg, hsz, ksz, i, op, n, sz, g, nchk, 
-                               res, hn, hg, cur >>
+                               online, goff, held, wq, htAlive, destroying, 
+                               items, growMax, done, err, errA, rv, ra, rb, rs, 
+                               osz, nsz, oi, olast, fbr, hjob, ncreate, pnt, 
+                               pk, pstart, plen, ppl, pcov, pn, pg, kind, tv, 
+                               gsz, lg, lsz, lcnt, csz, cg, hsz, ksz, i, op, n, 
+                               sz, g, nchk, res, woff, hn, hg, cur >>
 
 rs_unlock(self) == /\ pc[self] = "rs_unlock"
                    /\ Drained(self)
@@ -1833,25 +1946,26 @@ rs_unlock(self) == /\ pc[self] = "rs_unlock"
                    /\ acc' = Ev(self, "unlock", "resize_mutex", 0, 0, 0)
                    /\ errA' = Alive("unlock")
                    /\ pc' = [pc EXCEPT ![self] = "t_ret"]
-                   /\ UNCHANGED << mem, sb, alloc, gpok, gpw, gps, cs, held, 
-                                   wq, htAlive, destroying, items, growMax, 
-                                   done, err, rv, ra, rb, rs, osz, nsz, oi, 
-                                   olast, fbr, hjob, ncreate, pnt, pk, pstart, 
-                                   plen, ppl, pcov, pn, pg, stack, kind, tv, 
-                                   gsz, lg, lsz, lcnt, csz, cg, hsz, ksz, i, 
-                                   op, n, sz, g, nchk, res, hn, hg, cur >>
+                   /\ UNCHANGED << mem, sb, alloc, gpok, gpw, gps, cs, online, 
+                                   goff, held, wq, htAlive, destroying, items, 
+                                   growMax, done, err, rv, ra, rb, rs, osz, 
+                                   nsz, oi, olast, fbr, hjob, ncreate, pnt, pk, 
+                                   pstart, plen, ppl, pcov, pn, pg, stack, 
+                                   kind, tv, gsz, lg, lsz, lcnt, csz, cg, hsz, 
+                                   ksz, i, op, n, sz, g, nchk, res, woff, hn, 
+                                   hg, cur >>
 
 a_rlock(self) == /\ pc[self] = "a_rlock"
                  /\ cs' = [cs EXCEPT ![self] = TRUE]
                  /\ acc' = Ev(self, "rlock", "-", 0, 0, 0)
                  /\ pc' = [pc EXCEPT ![self] = "a_ld_size"]
-                 /\ UNCHANGED << mem, sb, mutex, alloc, gpok, gpw, gps, held, 
-                                 wq, htAlive, destroying, items, growMax, done, 
-                                 err, errA, rv, ra, rb, rs, osz, nsz, oi, 
-                                 olast, fbr, hjob, ncreate, pnt, pk, pstart, 
-                                 plen, ppl, pcov, pn, pg, stack, kind, tv, gsz, 
-                                 lg, lsz, lcnt, csz, cg, hsz, ksz, i, op, n, 
-                                 sz, g, nchk, res, hn, hg, cur >>
+                 /\ UNCHANGED << mem, sb, mutex, alloc, gpok, gpw, gps, online, 
+                                 goff, held, wq, htAlive, destroying, items, 
+                                 growMax, done, err, errA, rv, ra, rb, rs, osz, 
+                                 nsz, oi, olast, fbr, hjob, ncreate, pnt, pk, 
+                                 pstart, plen, ppl, pcov, pn, pg, stack, kind, 
+                                 tv, gsz, lg, lsz, lcnt, csz, cg, hsz, ksz, i, 
+                                 op, n, sz, g, nchk, res, woff, hn, hg, cur >>
 
 a_ld_size(self) == /\ pc[self] = "a_ld_size"
                    /\ sz' = [sz EXCEPT ![self] = Rd(self, "size")]
@@ -1860,12 +1974,13 @@ a_ld_size(self) == /\ pc[self] = "a_ld_size"
                    /\ held' = [held EXCEPT ![self] = 0..Order(sz'[self])]
                    /\ pc' = [pc EXCEPT ![self] = "a_walk"]
                    /\ UNCHANGED << mem, sb, mutex, alloc, gpok, gpw, gps, cs, 
-                                   wq, htAlive, destroying, items, growMax, 
-                                   done, err, rv, ra, rb, rs, osz, nsz, oi, 
-                                   olast, fbr, hjob, ncreate, pnt, pk, pstart, 
-                                   plen, ppl, pcov, pn, pg, stack, kind, tv, 
-                                   gsz, lg, lsz, lcnt, csz, cg, hsz, ksz, i, 
-                                   op, n, g, nchk, res, hn, hg, cur >>
+                                   online, goff, wq, htAlive, destroying, 
+                                   items, growMax, done, err, rv, ra, rb, rs, 
+                                   osz, nsz, oi, olast, fbr, hjob, ncreate, 
+                                   pnt, pk, pstart, plen, ppl, pcov, pn, pg, 
+                                   stack, kind, tv, gsz, lg, lsz, lcnt, csz, 
+                                   cg, hsz, ksz, i, op, n, g, nchk, res, woff, 
+                                   hn, hg, cur >>
 
 a_walk(self) == /\ pc[self] = "a_walk"
                 /\ \/ /\ AutoResize /\ nchk[self] < MaxChk
@@ -1877,12 +1992,12 @@ a_walk(self) == /\ pc[self] = "a_walk"
                    \/ /\ pc' = [pc EXCEPT ![self] = "a_insert"]
                       /\ UNCHANGED <<held, g, nchk>>
                 /\ UNCHANGED << mem, sb, mutex, acc, alloc, gpok, gpw, gps, cs, 
-                                wq, htAlive, destroying, items, growMax, done, 
-                                err, errA, rv, ra, rb, rs, osz, nsz, oi, olast, 
-                                fbr, hjob, ncreate, pnt, pk, pstart, plen, ppl, 
-                                pcov, pn, pg, stack, kind, tv, gsz, lg, lsz, 
-                                lcnt, csz, cg, hsz, ksz, i, op, n, sz, res, hn, 
-                                hg, cur >>
+                                online, goff, wq, htAlive, destroying, items, 
+                                growMax, done, err, errA, rv, ra, rb, rs, osz, 
+                                nsz, oi, olast, fbr, hjob, ncreate, pnt, pk, 
+                                pstart, plen, ppl, pcov, pn, pg, stack, kind, 
+                                tv, gsz, lg, lsz, lcnt, csz, cg, hsz, ksz, i, 
+                                op, n, sz, res, woff, hn, hg, cur >>
 
 a_chk(self) == /\ pc[self] = "a_chk"
                /\ /\ cg' = [cg EXCEPT ![self] = g[self]]
@@ -1894,22 +2009,23 @@ a_chk(self) == /\ pc[self] = "a_chk"
                                                        \o stack[self]]
                /\ pc' = [pc EXCEPT ![self] = "cr_ld_count"]
                /\ UNCHANGED << mem, sb, mutex, acc, alloc, gpok, gpw, gps, cs, 
-                               held, wq, htAlive, destroying, items, growMax, 
-                               done, err, errA, rv, ra, rb, rs, osz, nsz, oi, 
-                               olast, fbr, hjob, ncreate, pnt, pk, pstart, 
-                               plen, ppl, pcov, pn, pg, kind, tv, gsz, lg, lsz, 
-                               lcnt, hsz, ksz, i, op, n, sz, g, nchk, res, hn, 
-                               hg, cur >>
+                               online, goff, held, wq, htAlive, destroying, 
+                               items, growMax, done, err, errA, rv, ra, rb, rs, 
+                               osz, nsz, oi, olast, fbr, hjob, ncreate, pnt, 
+                               pk, pstart, plen, ppl, pcov, pn, pg, kind, tv, 
+                               gsz, lg, lsz, lcnt, hsz, ksz, i, op, n, sz, g, 
+                               nchk, res, woff, hn, hg, cur >>
 
 a_back(self) == /\ pc[self] = "a_back"
                 /\ pc' = [pc EXCEPT ![self] = "a_walk"]
                 /\ UNCHANGED << mem, sb, mutex, acc, alloc, gpok, gpw, gps, cs, 
-                                held, wq, htAlive, destroying, items, growMax, 
-                                done, err, errA, rv, ra, rb, rs, osz, nsz, oi, 
-                                olast, fbr, hjob, ncreate, pnt, pk, pstart, 
-                                plen, ppl, pcov, pn, pg, stack, kind, tv, gsz, 
-                                lg, lsz, lcnt, csz, cg, hsz, ksz, i, op, n, sz, 
-                                g, nchk, res, hn, hg, cur >>
+                                online, goff, held, wq, htAlive, destroying, 
+                                items, growMax, done, err, errA, rv, ra, rb, 
+                                rs, osz, nsz, oi, olast, fbr, hjob, ncreate, 
+                                pnt, pk, pstart, plen, ppl, pcov, pn, pg, 
+                                stack, kind, tv, gsz, lg, lsz, lcnt, csz, cg, 
+                                hsz, ksz, i, op, n, sz, g, nchk, res, woff, hn, 
+                                hg, cur >>
 
 a_insert(self) == /\ pc[self] = "a_insert"
                   /\ Drained(self)
@@ -1917,12 +2033,13 @@ a_insert(self) == /\ pc[self] = "a_insert"
                   /\ held' = [held EXCEPT ![self] = held[self] \cup Linked]
                   /\ pc' = [pc EXCEPT ![self] = "a_cnt"]
                   /\ UNCHANGED << mem, sb, mutex, acc, alloc, gpok, gpw, gps, 
-                                  cs, wq, htAlive, destroying, growMax, done, 
-                                  err, errA, rv, ra, rb, rs, osz, nsz, oi, 
-                                  olast, fbr, hjob, ncreate, pnt, pk, pstart, 
-                                  plen, ppl, pcov, pn, pg, stack, kind, tv, 
-                                  gsz, lg, lsz, lcnt, csz, cg, hsz, ksz, i, op, 
-                                  n, sz, g, nchk, res, hn, hg, cur >>
+                                  cs, online, goff, wq, htAlive, destroying, 
+                                  growMax, done, err, errA, rv, ra, rb, rs, 
+                                  osz, nsz, oi, olast, fbr, hjob, ncreate, pnt, 
+                                  pk, pstart, plen, ppl, pcov, pn, pg, stack, 
+                                  kind, tv, gsz, lg, lsz, lcnt, csz, cg, hsz, 
+                                  ksz, i, op, n, sz, g, nchk, res, woff, hn, 
+                                  hg, cur >>
 
 a_cnt(self) == /\ pc[self] = "a_cnt"
                /\ /\ hsz' = [hsz EXCEPT ![self] = sz[self]]
@@ -1932,38 +2049,39 @@ a_cnt(self) == /\ pc[self] = "a_cnt"
                                                        \o stack[self]]
                /\ pc' = [pc EXCEPT ![self] = "ca_add"]
                /\ UNCHANGED << mem, sb, mutex, acc, alloc, gpok, gpw, gps, cs, 
-                               held, wq, htAlive, destroying, items, growMax, 
-                               done, err, errA, rv, ra, rb, rs, osz, nsz, oi, 
-                               olast, fbr, hjob, ncreate, pnt, pk, pstart, 
-                               plen, ppl, pcov, pn, pg, kind, tv, gsz, lg, lsz, 
-                               lcnt, csz, cg, ksz, i, op, n, sz, g, nchk, res, 
-                               hn, hg, cur >>
+                               online, goff, held, wq, htAlive, destroying, 
+                               items, growMax, done, err, errA, rv, ra, rb, rs, 
+                               osz, nsz, oi, olast, fbr, hjob, ncreate, pnt, 
+                               pk, pstart, plen, ppl, pcov, pn, pg, kind, tv, 
+                               gsz, lg, lsz, lcnt, csz, cg, ksz, i, op, n, sz, 
+                               g, nchk, res, woff, hn, hg, cur >>
 
 a_runlock(self) == /\ pc[self] = "a_runlock"
                    /\ cs' = [cs EXCEPT ![self] = FALSE]
                    /\ held' = [held EXCEPT ![self] = {}]
-                   /\ gpw' = [p \in Procs |-> gpw[p] \ {self}]
+                   /\ gpw' = [p \in Procs |-> IF online[self] THEN gpw[p] ELSE gpw[p] \ {self}]
                    /\ acc' = Ev(self, "runlock", "-", 0, 0, 0)
                    /\ pc' = [pc EXCEPT ![self] = "t_ret"]
-                   /\ UNCHANGED << mem, sb, mutex, alloc, gpok, gps, wq, 
-                                   htAlive, destroying, items, growMax, done, 
-                                   err, errA, rv, ra, rb, rs, osz, nsz, oi, 
-                                   olast, fbr, hjob, ncreate, pnt, pk, pstart, 
-                                   plen, ppl, pcov, pn, pg, stack, kind, tv, 
-                                   gsz, lg, lsz, lcnt, csz, cg, hsz, ksz, i, 
-                                   op, n, sz, g, nchk, res, hn, hg, cur >>
+                   /\ UNCHANGED << mem, sb, mutex, alloc, gpok, gps, online, 
+                                   goff, wq, htAlive, destroying, items, 
+                                   growMax, done, err, errA, rv, ra, rb, rs, 
+                                   osz, nsz, oi, olast, fbr, hjob, ncreate, 
+                                   pnt, pk, pstart, plen, ppl, pcov, pn, pg, 
+                                   stack, kind, tv, gsz, lg, lsz, lcnt, csz, 
+                                   cg, hsz, ksz, i, op, n, sz, g, nchk, res, 
+                                   woff, hn, hg, cur >>
 
 d_rlock(self) == /\ pc[self] = "d_rlock"
                  /\ cs' = [cs EXCEPT ![self] = TRUE]
                  /\ acc' = Ev(self, "rlock", "-", 0, 0, 0)
                  /\ pc' = [pc EXCEPT ![self] = "d_ld_size"]
-                 /\ UNCHANGED << mem, sb, mutex, alloc, gpok, gpw, gps, held, 
-                                 wq, htAlive, destroying, items, growMax, done, 
-                                 err, errA, rv, ra, rb, rs, osz, nsz, oi, 
-                                 olast, fbr, hjob, ncreate, pnt, pk, pstart, 
-                                 plen, ppl, pcov, pn, pg, stack, kind, tv, gsz, 
-                                 lg, lsz, lcnt, csz, cg, hsz, ksz, i, op, n, 
-                                 sz, g, nchk, res, hn, hg, cur >>
+                 /\ UNCHANGED << mem, sb, mutex, alloc, gpok, gpw, gps, online, 
+                                 goff, held, wq, htAlive, destroying, items, 
+                                 growMax, done, err, errA, rv, ra, rb, rs, osz, 
+                                 nsz, oi, olast, fbr, hjob, ncreate, pnt, pk, 
+                                 pstart, plen, ppl, pcov, pn, pg, stack, kind, 
+                                 tv, gsz, lg, lsz, lcnt, csz, cg, hsz, ksz, i, 
+                                 op, n, sz, g, nchk, res, woff, hn, hg, cur >>
 
 d_ld_size(self) == /\ pc[self] = "d_ld_size"
                    /\ sz' = [sz EXCEPT ![self] = Rd(self, "size")]
@@ -1972,12 +2090,13 @@ d_ld_size(self) == /\ pc[self] = "d_ld_size"
                    /\ held' = [held EXCEPT ![self] = 0..Order(sz'[self])]
                    /\ pc' = [pc EXCEPT ![self] = "d_remove"]
                    /\ UNCHANGED << mem, sb, mutex, alloc, gpok, gpw, gps, cs, 
-                                   wq, htAlive, destroying, items, growMax, 
-                                   done, err, rv, ra, rb, rs, osz, nsz, oi, 
-                                   olast, fbr, hjob, ncreate, pnt, pk, pstart, 
-                                   plen, ppl, pcov, pn, pg, stack, kind, tv, 
-                                   gsz, lg, lsz, lcnt, csz, cg, hsz, ksz, i, 
-                                   op, n, g, nchk, res, hn, hg, cur >>
+                                   online, goff, wq, htAlive, destroying, 
+                                   items, growMax, done, err, rv, ra, rb, rs, 
+                                   osz, nsz, oi, olast, fbr, hjob, ncreate, 
+                                   pnt, pk, pstart, plen, ppl, pcov, pn, pg, 
+                                   stack, kind, tv, gsz, lg, lsz, lcnt, csz, 
+                                   cg, hsz, ksz, i, op, n, g, nchk, res, woff, 
+                                   hn, hg, cur >>
 
 d_remove(self) == /\ pc[self] = "d_remove"
                   /\ Drained(self)
@@ -1985,12 +2104,13 @@ d_remove(self) == /\ pc[self] = "d_remove"
                   /\ held' = [held EXCEPT ![self] = held[self] \cup Linked]
                   /\ pc' = [pc EXCEPT ![self] = "d_cnt"]
                   /\ UNCHANGED << mem, sb, mutex, acc, alloc, gpok, gpw, gps, 
-                                  cs, wq, htAlive, destroying, growMax, done, 
-                                  err, errA, rv, ra, rb, rs, osz, nsz, oi, 
-                                  olast, fbr, hjob, ncreate, pnt, pk, pstart, 
-                                  plen, ppl, pcov, pn, pg, stack, kind, tv, 
-                                  gsz, lg, lsz, lcnt, csz, cg, hsz, ksz, i, op, 
-                                  n, sz, g, nchk, res, hn, hg, cur >>
+                                  cs, online, goff, wq, htAlive, destroying, 
+                                  growMax, done, err, errA, rv, ra, rb, rs, 
+                                  osz, nsz, oi, olast, fbr, hjob, ncreate, pnt, 
+                                  pk, pstart, plen, ppl, pcov, pn, pg, stack, 
+                                  kind, tv, gsz, lg, lsz, lcnt, csz, cg, hsz, 
+                                  ksz, i, op, n, sz, g, nchk, res, woff, hn, 
+                                  hg, cur >>
 
 d_cnt(self) == /\ pc[self] = "d_cnt"
                /\ /\ ksz' = [ksz EXCEPT ![self] = sz[self]]
@@ -2000,38 +2120,39 @@ d_cnt(self) == /\ pc[self] = "d_cnt"
                                                        \o stack[self]]
                /\ pc' = [pc EXCEPT ![self] = "cd_del"]
                /\ UNCHANGED << mem, sb, mutex, acc, alloc, gpok, gpw, gps, cs, 
-                               held, wq, htAlive, destroying, items, growMax, 
-                               done, err, errA, rv, ra, rb, rs, osz, nsz, oi, 
-                               olast, fbr, hjob, ncreate, pnt, pk, pstart, 
-                               plen, ppl, pcov, pn, pg, kind, tv, gsz, lg, lsz, 
-                               lcnt, csz, cg, hsz, i, op, n, sz, g, nchk, res, 
-                               hn, hg, cur >>
+                               online, goff, held, wq, htAlive, destroying, 
+                               items, growMax, done, err, errA, rv, ra, rb, rs, 
+                               osz, nsz, oi, olast, fbr, hjob, ncreate, pnt, 
+                               pk, pstart, plen, ppl, pcov, pn, pg, kind, tv, 
+                               gsz, lg, lsz, lcnt, csz, cg, hsz, i, op, n, sz, 
+                               g, nchk, res, woff, hn, hg, cur >>
 
 d_runlock(self) == /\ pc[self] = "d_runlock"
                    /\ cs' = [cs EXCEPT ![self] = FALSE]
                    /\ held' = [held EXCEPT ![self] = {}]
-                   /\ gpw' = [p \in Procs |-> gpw[p] \ {self}]
+                   /\ gpw' = [p \in Procs |-> IF online[self] THEN gpw[p] ELSE gpw[p] \ {self}]
                    /\ acc' = Ev(self, "runlock", "-", 0, 0, 0)
                    /\ pc' = [pc EXCEPT ![self] = "t_ret"]
-                   /\ UNCHANGED << mem, sb, mutex, alloc, gpok, gps, wq, 
-                                   htAlive, destroying, items, growMax, done, 
-                                   err, errA, rv, ra, rb, rs, osz, nsz, oi, 
-                                   olast, fbr, hjob, ncreate, pnt, pk, pstart, 
-                                   plen, ppl, pcov, pn, pg, stack, kind, tv, 
-                                   gsz, lg, lsz, lcnt, csz, cg, hsz, ksz, i, 
-                                   op, n, sz, g, nchk, res, hn, hg, cur >>
+                   /\ UNCHANGED << mem, sb, mutex, alloc, gpok, gps, online, 
+                                   goff, wq, htAlive, destroying, items, 
+                                   growMax, done, err, errA, rv, ra, rb, rs, 
+                                   osz, nsz, oi, olast, fbr, hjob, ncreate, 
+                                   pnt, pk, pstart, plen, ppl, pcov, pn, pg, 
+                                   stack, kind, tv, gsz, lg, lsz, lcnt, csz, 
+                                   cg, hsz, ksz, i, op, n, sz, g, nchk, res, 
+                                   woff, hn, hg, cur >>
 
 l_rlock(self) == /\ pc[self] = "l_rlock"
                  /\ cs' = [cs EXCEPT ![self] = TRUE]
                  /\ acc' = Ev(self, "rlock", "-", 0, 0, 0)
                  /\ pc' = [pc EXCEPT ![self] = "l_ld_size"]
-                 /\ UNCHANGED << mem, sb, mutex, alloc, gpok, gpw, gps, held, 
-                                 wq, htAlive, destroying, items, growMax, done, 
-                                 err, errA, rv, ra, rb, rs, osz, nsz, oi, 
-                                 olast, fbr, hjob, ncreate, pnt, pk, pstart, 
-                                 plen, ppl, pcov, pn, pg, stack, kind, tv, gsz, 
-                                 lg, lsz, lcnt, csz, cg, hsz, ksz, i, op, n, 
-                                 sz, g, nchk, res, hn, hg, cur >>
+                 /\ UNCHANGED << mem, sb, mutex, alloc, gpok, gpw, gps, online, 
+                                 goff, held, wq, htAlive, destroying, items, 
+                                 growMax, done, err, errA, rv, ra, rb, rs, osz, 
+                                 nsz, oi, olast, fbr, hjob, ncreate, pnt, pk, 
+                                 pstart, plen, ppl, pcov, pn, pg, stack, kind, 
+                                 tv, gsz, lg, lsz, lcnt, csz, cg, hsz, ksz, i, 
+                                 op, n, sz, g, nchk, res, woff, hn, hg, cur >>
 
 l_ld_size(self) == /\ pc[self] = "l_ld_size"
                    /\ sz' = [sz EXCEPT ![self] = Rd(self, "size")]
@@ -2040,37 +2161,39 @@ l_ld_size(self) == /\ pc[self] = "l_ld_size"
                    /\ held' = [held EXCEPT ![self] = 0..Order(sz'[self])]
                    /\ pc' = [pc EXCEPT ![self] = "l_walk"]
                    /\ UNCHANGED << mem, sb, mutex, alloc, gpok, gpw, gps, cs, 
-                                   wq, htAlive, destroying, items, growMax, 
-                                   done, err, rv, ra, rb, rs, osz, nsz, oi, 
-                                   olast, fbr, hjob, ncreate, pnt, pk, pstart, 
-                                   plen, ppl, pcov, pn, pg, stack, kind, tv, 
-                                   gsz, lg, lsz, lcnt, csz, cg, hsz, ksz, i, 
-                                   op, n, g, nchk, res, hn, hg, cur >>
+                                   online, goff, wq, htAlive, destroying, 
+                                   items, growMax, done, err, rv, ra, rb, rs, 
+                                   osz, nsz, oi, olast, fbr, hjob, ncreate, 
+                                   pnt, pk, pstart, plen, ppl, pcov, pn, pg, 
+                                   stack, kind, tv, gsz, lg, lsz, lcnt, csz, 
+                                   cg, hsz, ksz, i, op, n, g, nchk, res, woff, 
+                                   hn, hg, cur >>
 
 l_walk(self) == /\ pc[self] = "l_walk"
                 /\ held' = [held EXCEPT ![self] = held[self] \cup Linked]
                 /\ pc' = [pc EXCEPT ![self] = "l_runlock"]
                 /\ UNCHANGED << mem, sb, mutex, acc, alloc, gpok, gpw, gps, cs, 
-                                wq, htAlive, destroying, items, growMax, done, 
-                                err, errA, rv, ra, rb, rs, osz, nsz, oi, olast, 
-                                fbr, hjob, ncreate, pnt, pk, pstart, plen, ppl, 
-                                pcov, pn, pg, stack, kind, tv, gsz, lg, lsz, 
-                                lcnt, csz, cg, hsz, ksz, i, op, n, sz, g, nchk, 
-                                res, hn, hg, cur >>
+                                online, goff, wq, htAlive, destroying, items, 
+                                growMax, done, err, errA, rv, ra, rb, rs, osz, 
+                                nsz, oi, olast, fbr, hjob, ncreate, pnt, pk, 
+                                pstart, plen, ppl, pcov, pn, pg, stack, kind, 
+                                tv, gsz, lg, lsz, lcnt, csz, cg, hsz, ksz, i, 
+                                op, n, sz, g, nchk, res, woff, hn, hg, cur >>
 
 l_runlock(self) == /\ pc[self] = "l_runlock"
                    /\ cs' = [cs EXCEPT ![self] = FALSE]
                    /\ held' = [held EXCEPT ![self] = {}]
-                   /\ gpw' = [p \in Procs |-> gpw[p] \ {self}]
+                   /\ gpw' = [p \in Procs |-> IF online[self] THEN gpw[p] ELSE gpw[p] \ {self}]
                    /\ acc' = Ev(self, "runlock", "-", 0, 0, 0)
                    /\ pc' = [pc EXCEPT ![self] = "t_ret"]
-                   /\ UNCHANGED << mem, sb, mutex, alloc, gpok, gps, wq, 
-                                   htAlive, destroying, items, growMax, done, 
-                                   err, errA, rv, ra, rb, rs, osz, nsz, oi, 
-                                   olast, fbr, hjob, ncreate, pnt, pk, pstart, 
-                                   plen, ppl, pcov, pn, pg, stack, kind, tv, 
-                                   gsz, lg, lsz, lcnt, csz, cg, hsz, ksz, i, 
-                                   op, n, sz, g, nchk, res, hn, hg, cur >>
+                   /\ UNCHANGED << mem, sb, mutex, alloc, gpok, gps, online, 
+                                   goff, wq, htAlive, destroying, items, 
+                                   growMax, done, err, errA, rv, ra, rb, rs, 
+                                   osz, nsz, oi, olast, fbr, hjob, ncreate, 
+                                   pnt, pk, pstart, plen, ppl, pcov, pn, pg, 
+                                   stack, kind, tv, gsz, lg, lsz, lcnt, csz, 
+                                   cg, hsz, ksz, i, op, n, sz, g, nchk, res, 
+                                   woff, hn, hg, cur >>
 
 ds_join(self) == /\ pc[self] = "ds_join"
                  /\ \A t \in Threads \ {self} : done[t]
@@ -2078,66 +2201,72 @@ ds_join(self) == /\ pc[self] = "ds_join"
                        THEN /\ pc' = [pc EXCEPT ![self] = "ds_e_on"]
                        ELSE /\ pc' = [pc EXCEPT ![self] = "ds_db"]
                  /\ UNCHANGED << mem, sb, mutex, acc, alloc, gpok, gpw, gps, 
-                                 cs, held, wq, htAlive, destroying, items, 
+                                 cs, online, goff, held, wq, htAlive, 
+                                 destroying, items, growMax, done, err, errA, 
+                                 rv, ra, rb, rs, osz, nsz, oi, olast, fbr, 
+                                 hjob, ncreate, pnt, pk, pstart, plen, ppl, 
+                                 pcov, pn, pg, stack, kind, tv, gsz, lg, lsz, 
+                                 lcnt, csz, cg, hsz, ksz, i, op, n, sz, g, 
+                                 nchk, res, woff, hn, hg, cur >>
+
+ds_e_on(self) == /\ pc[self] = "ds_e_on"
+                 /\ online' = [online EXCEPT ![self] = Qsbr]
+                 /\ acc' = Ev(self, "online", "-", 0, 0, 0)
+                 /\ pc' = [pc EXCEPT ![self] = "ds_e_lock"]
+                 /\ UNCHANGED << mem, sb, mutex, alloc, gpok, gpw, gps, cs, 
+                                 goff, held, wq, htAlive, destroying, items, 
                                  growMax, done, err, errA, rv, ra, rb, rs, osz, 
                                  nsz, oi, olast, fbr, hjob, ncreate, pnt, pk, 
                                  pstart, plen, ppl, pcov, pn, pg, stack, kind, 
                                  tv, gsz, lg, lsz, lcnt, csz, cg, hsz, ksz, i, 
-                                 op, n, sz, g, nchk, res, hn, hg, cur >>
-
-ds_e_on(self) == /\ pc[self] = "ds_e_on"
-                 /\ acc' = Ev(self, "online", "-", 0, 0, 0)
-                 /\ pc' = [pc EXCEPT ![self] = "ds_e_lock"]
-                 /\ UNCHANGED << mem, sb, mutex, alloc, gpok, gpw, gps, cs, 
-                                 held, wq, htAlive, destroying, items, growMax, 
-                                 done, err, errA, rv, ra, rb, rs, osz, nsz, oi, 
-                                 olast, fbr, hjob, ncreate, pnt, pk, pstart, 
-                                 plen, ppl, pcov, pn, pg, stack, kind, tv, gsz, 
-                                 lg, lsz, lcnt, csz, cg, hsz, ksz, i, op, n, 
-                                 sz, g, nchk, res, hn, hg, cur >>
+                                 op, n, sz, g, nchk, res, woff, hn, hg, cur >>
 
 ds_e_lock(self) == /\ pc[self] = "ds_e_lock"
                    /\ cs' = [cs EXCEPT ![self] = TRUE]
                    /\ acc' = Ev(self, "rlock", "-", 0, 0, 0)
                    /\ errA' = Alive("is_empty")
                    /\ pc' = [pc EXCEPT ![self] = "ds_e_unlock"]
-                   /\ UNCHANGED << mem, sb, mutex, alloc, gpok, gpw, gps, held, 
-                                   wq, htAlive, destroying, items, growMax, 
-                                   done, err, rv, ra, rb, rs, osz, nsz, oi, 
-                                   olast, fbr, hjob, ncreate, pnt, pk, pstart, 
-                                   plen, ppl, pcov, pn, pg, stack, kind, tv, 
-                                   gsz, lg, lsz, lcnt, csz, cg, hsz, ksz, i, 
-                                   op, n, sz, g, nchk, res, hn, hg, cur >>
+                   /\ UNCHANGED << mem, sb, mutex, alloc, gpok, gpw, gps, 
+                                   online, goff, held, wq, htAlive, destroying, 
+                                   items, growMax, done, err, rv, ra, rb, rs, 
+                                   osz, nsz, oi, olast, fbr, hjob, ncreate, 
+                                   pnt, pk, pstart, plen, ppl, pcov, pn, pg, 
+                                   stack, kind, tv, gsz, lg, lsz, lcnt, csz, 
+                                   cg, hsz, ksz, i, op, n, sz, g, nchk, res, 
+                                   woff, hn, hg, cur >>
 
 ds_e_unlock(self) == /\ pc[self] = "ds_e_unlock"
                      /\ cs' = [cs EXCEPT ![self] = FALSE]
                      /\ held' = [held EXCEPT ![self] = {}]
-                     /\ gpw' = [p \in Procs |-> gpw[p] \ {self}]
+                     /\ gpw' = [p \in Procs |-> IF online[self] THEN gpw[p] ELSE gpw[p] \ {self}]
                      /\ acc' = Ev(self, "runlock", "-", 0, 0, 0)
                      /\ pc' = [pc EXCEPT ![self] = "ds_e_off"]
-                     /\ UNCHANGED << mem, sb, mutex, alloc, gpok, gps, wq, 
-                                     htAlive, destroying, items, growMax, done, 
-                                     err, errA, rv, ra, rb, rs, osz, nsz, oi, 
-                                     olast, fbr, hjob, ncreate, pnt, pk, 
-                                     pstart, plen, ppl, pcov, pn, pg, stack, 
-                                     kind, tv, gsz, lg, lsz, lcnt, csz, cg, 
-                                     hsz, ksz, i, op, n, sz, g, nchk, res, hn, 
-                                     hg, cur >>
+                     /\ UNCHANGED << mem, sb, mutex, alloc, gpok, gps, online, 
+                                     goff, wq, htAlive, destroying, items, 
+                                     growMax, done, err, errA, rv, ra, rb, rs, 
+                                     osz, nsz, oi, olast, fbr, hjob, ncreate, 
+                                     pnt, pk, pstart, plen, ppl, pcov, pn, pg, 
+                                     stack, kind, tv, gsz, lg, lsz, lcnt, csz, 
+                                     cg, hsz, ksz, i, op, n, sz, g, nchk, res, 
+                                     woff, hn, hg, cur >>
 
 ds_e_off(self) == /\ pc[self] = "ds_e_off"
+                  /\ online' = [online EXCEPT ![self] = FALSE]
+                  /\ gpw' = [p \in Procs |-> IF cs[self] THEN gpw[p] ELSE gpw[p] \ {self}]
                   /\ acc' = Ev(self, "offline", "-", 0, 0, 0)
                   /\ IF items # 0
                         THEN /\ res' = [res EXCEPT ![self] = 0 - 1]
                              /\ pc' = [pc EXCEPT ![self] = "t_ret"]
                         ELSE /\ pc' = [pc EXCEPT ![self] = "ds_st_ipd"]
                              /\ res' = res
-                  /\ UNCHANGED << mem, sb, mutex, alloc, gpok, gpw, gps, cs, 
+                  /\ UNCHANGED << mem, sb, mutex, alloc, gpok, gps, cs, goff, 
                                   held, wq, htAlive, destroying, items, 
                                   growMax, done, err, errA, rv, ra, rb, rs, 
                                   osz, nsz, oi, olast, fbr, hjob, ncreate, pnt, 
                                   pk, pstart, plen, ppl, pcov, pn, pg, stack, 
                                   kind, tv, gsz, lg, lsz, lcnt, csz, cg, hsz, 
-                                  ksz, i, op, n, sz, g, nchk, hn, hg, cur >>
+                                  ksz, i, op, n, sz, g, nchk, woff, hn, hg, 
+                                  cur >>
 
 ds_st_ipd(self) == /\ pc[self] = "ds_st_ipd"
                    /\ IF TSO
@@ -2148,13 +2277,14 @@ ds_st_ipd(self) == /\ pc[self] = "ds_st_ipd"
                    /\ acc' = Ev(self, "st", "in_progress_destroy", 1, 0, 0)
                    /\ errA' = Alive("st:" \o "in_progress_destroy")
                    /\ pc' = [pc EXCEPT ![self] = "ds_queue"]
-                   /\ UNCHANGED << mutex, alloc, gpok, gpw, gps, cs, held, wq, 
-                                   htAlive, destroying, items, growMax, done, 
-                                   err, rv, ra, rb, rs, osz, nsz, oi, olast, 
-                                   fbr, hjob, ncreate, pnt, pk, pstart, plen, 
-                                   ppl, pcov, pn, pg, stack, kind, tv, gsz, lg, 
-                                   lsz, lcnt, csz, cg, hsz, ksz, i, op, n, sz, 
-                                   g, nchk, res, hn, hg, cur >>
+                   /\ UNCHANGED << mutex, alloc, gpok, gpw, gps, cs, online, 
+                                   goff, held, wq, htAlive, destroying, items, 
+                                   growMax, done, err, rv, ra, rb, rs, osz, 
+                                   nsz, oi, olast, fbr, hjob, ncreate, pnt, pk, 
+                                   pstart, plen, ppl, pcov, pn, pg, stack, 
+                                   kind, tv, gsz, lg, lsz, lcnt, csz, cg, hsz, 
+                                   ksz, i, op, n, sz, g, nchk, res, woff, hn, 
+                                   hg, cur >>
 
 ds_queue(self) == /\ pc[self] = "ds_queue"
                   /\ Drained(self)
@@ -2162,12 +2292,13 @@ ds_queue(self) == /\ pc[self] = "ds_queue"
                   /\ acc' = Ev(self, "enq", "dw", 0, 0, 0)
                   /\ pc' = [pc EXCEPT ![self] = "t_ret"]
                   /\ UNCHANGED << mem, sb, mutex, alloc, gpok, gpw, gps, cs, 
-                                  held, htAlive, destroying, items, growMax, 
-                                  done, err, errA, rv, ra, rb, rs, osz, nsz, 
-                                  oi, olast, fbr, hjob, ncreate, pnt, pk, 
-                                  pstart, plen, ppl, pcov, pn, pg, stack, kind, 
-                                  tv, gsz, lg, lsz, lcnt, csz, cg, hsz, ksz, i, 
-                                  op, n, sz, g, nchk, res, hn, hg, cur >>
+                                  online, goff, held, htAlive, destroying, 
+                                  items, growMax, done, err, errA, rv, ra, rb, 
+                                  rs, osz, nsz, oi, olast, fbr, hjob, ncreate, 
+                                  pnt, pk, pstart, plen, ppl, pcov, pn, pg, 
+                                  stack, kind, tv, gsz, lg, lsz, lcnt, csz, cg, 
+                                  hsz, ksz, i, op, n, sz, g, nchk, res, woff, 
+                                  hn, hg, cur >>
 
 ds_db(self) == /\ pc[self] = "ds_db"
                /\ stack' = [stack EXCEPT ![self] = << [ procedure |->  "delete_bucket",
@@ -2175,12 +2306,12 @@ ds_db(self) == /\ pc[self] = "ds_db"
                                                     \o stack[self]]
                /\ pc' = [pc EXCEPT ![self] = "db_chk"]
                /\ UNCHANGED << mem, sb, mutex, acc, alloc, gpok, gpw, gps, cs, 
-                               held, wq, htAlive, destroying, items, growMax, 
-                               done, err, errA, rv, ra, rb, rs, osz, nsz, oi, 
-                               olast, fbr, hjob, ncreate, pnt, pk, pstart, 
-                               plen, ppl, pcov, pn, pg, kind, tv, gsz, lg, lsz, 
-                               lcnt, csz, cg, hsz, ksz, i, op, n, sz, g, nchk, 
-                               res, hn, hg, cur >>
+                               online, goff, held, wq, htAlive, destroying, 
+                               items, growMax, done, err, errA, rv, ra, rb, rs, 
+                               osz, nsz, oi, olast, fbr, hjob, ncreate, pnt, 
+                               pk, pstart, plen, ppl, pcov, pn, pg, kind, tv, 
+                               gsz, lg, lsz, lcnt, csz, cg, hsz, ksz, i, op, n, 
+                               sz, g, nchk, res, woff, hn, hg, cur >>
 
 ds_dbr(self) == /\ pc[self] = "ds_dbr"
                 /\ IF rv[self] # 0
@@ -2189,12 +2320,13 @@ ds_dbr(self) == /\ pc[self] = "ds_dbr"
                       ELSE /\ pc' = [pc EXCEPT ![self] = "ds_fsc"]
                            /\ res' = res
                 /\ UNCHANGED << mem, sb, mutex, acc, alloc, gpok, gpw, gps, cs, 
-                                held, wq, htAlive, destroying, items, growMax, 
-                                done, err, errA, rv, ra, rb, rs, osz, nsz, oi, 
-                                olast, fbr, hjob, ncreate, pnt, pk, pstart, 
-                                plen, ppl, pcov, pn, pg, stack, kind, tv, gsz, 
-                                lg, lsz, lcnt, csz, cg, hsz, ksz, i, op, n, sz, 
-                                g, nchk, hn, hg, cur >>
+                                online, goff, held, wq, htAlive, destroying, 
+                                items, growMax, done, err, errA, rv, ra, rb, 
+                                rs, osz, nsz, oi, olast, fbr, hjob, ncreate, 
+                                pnt, pk, pstart, plen, ppl, pcov, pn, pg, 
+                                stack, kind, tv, gsz, lg, lsz, lcnt, csz, cg, 
+                                hsz, ksz, i, op, n, sz, g, nchk, woff, hn, hg, 
+                                cur >>
 
 ds_fsc(self) == /\ pc[self] = "ds_fsc"
                 /\ IF Accounting
@@ -2203,50 +2335,54 @@ ds_fsc(self) == /\ pc[self] = "ds_fsc"
                            /\ acc' = acc
                 /\ pc' = [pc EXCEPT ![self] = "ds_fht"]
                 /\ UNCHANGED << mem, sb, mutex, alloc, gpok, gpw, gps, cs, 
-                                held, wq, htAlive, destroying, items, growMax, 
-                                done, err, errA, rv, ra, rb, rs, osz, nsz, oi, 
-                                olast, fbr, hjob, ncreate, pnt, pk, pstart, 
-                                plen, ppl, pcov, pn, pg, stack, kind, tv, gsz, 
-                                lg, lsz, lcnt, csz, cg, hsz, ksz, i, op, n, sz, 
-                                g, nchk, res, hn, hg, cur >>
+                                online, goff, held, wq, htAlive, destroying, 
+                                items, growMax, done, err, errA, rv, ra, rb, 
+                                rs, osz, nsz, oi, olast, fbr, hjob, ncreate, 
+                                pnt, pk, pstart, plen, ppl, pcov, pn, pg, 
+                                stack, kind, tv, gsz, lg, lsz, lcnt, csz, cg, 
+                                hsz, ksz, i, op, n, sz, g, nchk, res, woff, hn, 
+                                hg, cur >>
 
 ds_fht(self) == /\ pc[self] = "ds_fht"
                 /\ htAlive' = FALSE
                 /\ acc' = Ev(self, "htfree", "-", 0, 0, 0)
                 /\ pc' = [pc EXCEPT ![self] = "t_ret"]
                 /\ UNCHANGED << mem, sb, mutex, alloc, gpok, gpw, gps, cs, 
-                                held, wq, destroying, items, growMax, done, 
-                                err, errA, rv, ra, rb, rs, osz, nsz, oi, olast, 
-                                fbr, hjob, ncreate, pnt, pk, pstart, plen, ppl, 
-                                pcov, pn, pg, stack, kind, tv, gsz, lg, lsz, 
-                                lcnt, csz, cg, hsz, ksz, i, op, n, sz, g, nchk, 
-                                res, hn, hg, cur >>
+                                online, goff, held, wq, destroying, items, 
+                                growMax, done, err, errA, rv, ra, rb, rs, osz, 
+                                nsz, oi, olast, fbr, hjob, ncreate, pnt, pk, 
+                                pstart, plen, ppl, pcov, pn, pg, stack, kind, 
+                                tv, gsz, lg, lsz, lcnt, csz, cg, hsz, ksz, i, 
+                                op, n, sz, g, nchk, res, woff, hn, hg, cur >>
 
 t_ret(self) == /\ pc[self] = "t_ret"
                /\ acc' = Ev(self, "ret", op[self].op, 0, 0, res[self])
                /\ i' = [i EXCEPT ![self] = i[self] + 1]
                /\ pc' = [pc EXCEPT ![self] = "t_top"]
-               /\ UNCHANGED << mem, sb, mutex, alloc, gpok, gpw, gps, cs, held, 
-                               wq, htAlive, destroying, items, growMax, done, 
-                               err, errA, rv, ra, rb, rs, osz, nsz, oi, olast, 
-                               fbr, hjob, ncreate, pnt, pk, pstart, plen, ppl, 
-                               pcov, pn, pg, stack, kind, tv, gsz, lg, lsz, 
-                               lcnt, csz, cg, hsz, ksz, op, n, sz, g, nchk, 
-                               res, hn, hg, cur >>
+               /\ UNCHANGED << mem, sb, mutex, alloc, gpok, gpw, gps, cs, 
+                               online, goff, held, wq, htAlive, destroying, 
+                               items, growMax, done, err, errA, rv, ra, rb, rs, 
+                               osz, nsz, oi, olast, fbr, hjob, ncreate, pnt, 
+                               pk, pstart, plen, ppl, pcov, pn, pg, stack, 
+                               kind, tv, gsz, lg, lsz, lcnt, csz, cg, hsz, ksz, 
+                               op, n, sz, g, nchk, res, woff, hn, hg, cur >>
 
 t_fin(self) == /\ pc[self] = "t_fin"
                /\ done' = [done EXCEPT ![self] = TRUE]
                /\ acc' = Ev(self, "fin", "-", 0, 0, 0)
+               /\ online' = [online EXCEPT ![self] = FALSE]
+               /\ gpw' = [p \in Procs |-> gpw[p] \ {self}]
                /\ pc' = [pc EXCEPT ![self] = "Done"]
-               /\ UNCHANGED << mem, sb, mutex, alloc, gpok, gpw, gps, cs, held, 
-                               wq, htAlive, destroying, items, growMax, err, 
-                               errA, rv, ra, rb, rs, osz, nsz, oi, olast, fbr, 
-                               hjob, ncreate, pnt, pk, pstart, plen, ppl, pcov, 
-                               pn, pg, stack, kind, tv, gsz, lg, lsz, lcnt, 
-                               csz, cg, hsz, ksz, i, op, n, sz, g, nchk, res, 
-                               hn, hg, cur >>
+               /\ UNCHANGED << mem, sb, mutex, alloc, gpok, gps, cs, goff, 
+                               held, wq, htAlive, destroying, items, growMax, 
+                               err, errA, rv, ra, rb, rs, osz, nsz, oi, olast, 
+                               fbr, hjob, ncreate, pnt, pk, pstart, plen, ppl, 
+                               pcov, pn, pg, stack, kind, tv, gsz, lg, lsz, 
+                               lcnt, csz, cg, hsz, ksz, i, op, n, sz, g, nchk, 
+                               res, woff, hn, hg, cur >>
 
-thr(self) == t_top(self) \/ rs_tgt(self) \/ rs_st_ri(self) \/ rs_lock(self)
+thr(self) == t_reg(self) \/ t_top(self) \/ rs_tgt(self) \/ rs_st_ri(self)
+                \/ rs_off(self) \/ rs_lock(self) \/ rs_on(self)
                 \/ rs_do(self) \/ rs_unlock(self) \/ a_rlock(self)
                 \/ a_ld_size(self) \/ a_walk(self) \/ a_chk(self)
                 \/ a_back(self) \/ a_insert(self) \/ a_cnt(self)
@@ -2262,15 +2398,16 @@ thr(self) == t_top(self) \/ rs_tgt(self) \/ rs_st_ri(self) \/ rs_lock(self)
 hp_reg(self) == /\ pc[self] = "hp_reg"
                 /\ hjob[self].st = "run"
                 /\ hn' = [hn EXCEPT ![self] = 0]
+                /\ online' = [online EXCEPT ![self] = Qsbr]
                 /\ acc' = Ev(self, "reg", "-", 0, 0, 0)
                 /\ pc' = [pc EXCEPT ![self] = "hp_walk"]
                 /\ UNCHANGED << mem, sb, mutex, alloc, gpok, gpw, gps, cs, 
-                                held, wq, htAlive, destroying, items, growMax, 
-                                done, err, errA, rv, ra, rb, rs, osz, nsz, oi, 
-                                olast, fbr, hjob, ncreate, pnt, pk, pstart, 
-                                plen, ppl, pcov, pn, pg, stack, kind, tv, gsz, 
-                                lg, lsz, lcnt, csz, cg, hsz, ksz, i, op, n, sz, 
-                                g, nchk, res, hg, cur >>
+                                goff, held, wq, htAlive, destroying, items, 
+                                growMax, done, err, errA, rv, ra, rb, rs, osz, 
+                                nsz, oi, olast, fbr, hjob, ncreate, pnt, pk, 
+                                pstart, plen, ppl, pcov, pn, pg, stack, kind, 
+                                tv, gsz, lg, lsz, lcnt, csz, cg, hsz, ksz, i, 
+                                op, n, sz, g, nchk, res, woff, hg, cur >>
 
 hp_walk(self) == /\ pc[self] = "hp_walk"
                  /\ \/ /\ AutoResize /\ hjob[self].kind = "pop" /\ hn[self] < MaxChkP
@@ -2281,12 +2418,13 @@ hp_walk(self) == /\ pc[self] = "hp_walk"
                     \/ /\ pc' = [pc EXCEPT ![self] = "hp_unreg"]
                        /\ UNCHANGED <<hn, hg>>
                  /\ UNCHANGED << mem, sb, mutex, acc, alloc, gpok, gpw, gps, 
-                                 cs, held, wq, htAlive, destroying, items, 
-                                 growMax, done, err, errA, rv, ra, rb, rs, osz, 
-                                 nsz, oi, olast, fbr, hjob, ncreate, pnt, pk, 
-                                 pstart, plen, ppl, pcov, pn, pg, stack, kind, 
-                                 tv, gsz, lg, lsz, lcnt, csz, cg, hsz, ksz, i, 
-                                 op, n, sz, g, nchk, res, cur >>
+                                 cs, online, goff, held, wq, htAlive, 
+                                 destroying, items, growMax, done, err, errA, 
+                                 rv, ra, rb, rs, osz, nsz, oi, olast, fbr, 
+                                 hjob, ncreate, pnt, pk, pstart, plen, ppl, 
+                                 pcov, pn, pg, stack, kind, tv, gsz, lg, lsz, 
+                                 lcnt, csz, cg, hsz, ksz, i, op, n, sz, g, 
+                                 nchk, res, woff, cur >>
 
 hp_chk(self) == /\ pc[self] = "hp_chk"
                 /\ /\ cg' = [cg EXCEPT ![self] = hg[self]]
@@ -2298,35 +2436,38 @@ hp_chk(self) == /\ pc[self] = "hp_chk"
                                                         \o stack[self]]
                 /\ pc' = [pc EXCEPT ![self] = "cr_ld_count"]
                 /\ UNCHANGED << mem, sb, mutex, acc, alloc, gpok, gpw, gps, cs, 
-                                held, wq, htAlive, destroying, items, growMax, 
-                                done, err, errA, rv, ra, rb, rs, osz, nsz, oi, 
-                                olast, fbr, hjob, ncreate, pnt, pk, pstart, 
-                                plen, ppl, pcov, pn, pg, kind, tv, gsz, lg, 
-                                lsz, lcnt, hsz, ksz, i, op, n, sz, g, nchk, 
-                                res, hn, hg, cur >>
+                                online, goff, held, wq, htAlive, destroying, 
+                                items, growMax, done, err, errA, rv, ra, rb, 
+                                rs, osz, nsz, oi, olast, fbr, hjob, ncreate, 
+                                pnt, pk, pstart, plen, ppl, pcov, pn, pg, kind, 
+                                tv, gsz, lg, lsz, lcnt, hsz, ksz, i, op, n, sz, 
+                                g, nchk, res, woff, hn, hg, cur >>
 
 hp_back(self) == /\ pc[self] = "hp_back"
                  /\ pc' = [pc EXCEPT ![self] = "hp_walk"]
                  /\ UNCHANGED << mem, sb, mutex, acc, alloc, gpok, gpw, gps, 
-                                 cs, held, wq, htAlive, destroying, items, 
-                                 growMax, done, err, errA, rv, ra, rb, rs, osz, 
-                                 nsz, oi, olast, fbr, hjob, ncreate, pnt, pk, 
-                                 pstart, plen, ppl, pcov, pn, pg, stack, kind, 
-                                 tv, gsz, lg, lsz, lcnt, csz, cg, hsz, ksz, i, 
-                                 op, n, sz, g, nchk, res, hn, hg, cur >>
+                                 cs, online, goff, held, wq, htAlive, 
+                                 destroying, items, growMax, done, err, errA, 
+                                 rv, ra, rb, rs, osz, nsz, oi, olast, fbr, 
+                                 hjob, ncreate, pnt, pk, pstart, plen, ppl, 
+                                 pcov, pn, pg, stack, kind, tv, gsz, lg, lsz, 
+                                 lcnt, csz, cg, hsz, ksz, i, op, n, sz, g, 
+                                 nchk, res, woff, hn, hg, cur >>
 
 hp_unreg(self) == /\ pc[self] = "hp_unreg"
                   /\ pcov' = [pcov EXCEPT ![hjob[self].par] = pcov[hjob[self].par] + hjob[self].len]
                   /\ hjob' = [hjob EXCEPT ![self].st = "done"]
+                  /\ online' = [online EXCEPT ![self] = FALSE]
+                  /\ gpw' = [p \in Procs |-> IF cs[self] THEN gpw[p] ELSE gpw[p] \ {self}]
                   /\ acc' = Ev(self, "unreg", "-", 0, 0, 0)
                   /\ pc' = [pc EXCEPT ![self] = "hp_reg"]
-                  /\ UNCHANGED << mem, sb, mutex, alloc, gpok, gpw, gps, cs, 
+                  /\ UNCHANGED << mem, sb, mutex, alloc, gpok, gps, cs, goff, 
                                   held, wq, htAlive, destroying, items, 
                                   growMax, done, err, errA, rv, ra, rb, rs, 
                                   osz, nsz, oi, olast, fbr, ncreate, pnt, pk, 
                                   pstart, plen, ppl, pn, pg, stack, kind, tv, 
                                   gsz, lg, lsz, lcnt, csz, cg, hsz, ksz, i, op, 
-                                  n, sz, g, nchk, res, hn, hg, cur >>
+                                  n, sz, g, nchk, res, woff, hn, hg, cur >>
 
 helper(self) == hp_reg(self) \/ hp_walk(self) \/ hp_chk(self)
                    \/ hp_back(self) \/ hp_unreg(self)
@@ -2335,91 +2476,188 @@ w_wait(self) == /\ pc[self] = "w_wait"
                 /\ wq # <<>>
                 /\ cur' = [cur EXCEPT ![self] = Head(wq)]
                 /\ wq' = Tail(wq)
-                /\ acc' = Ev(self, "reg", "-", 0, 0, 0)
                 /\ errA' = Alive("work")
                 /\ pc' = [pc EXCEPT ![self] = "w_disp"]
-                /\ UNCHANGED << mem, sb, mutex, alloc, gpok, gpw, gps, cs, 
-                                held, htAlive, destroying, items, growMax, 
-                                done, err, rv, ra, rb, rs, osz, nsz, oi, olast, 
-                                fbr, hjob, ncreate, pnt, pk, pstart, plen, ppl, 
-                                pcov, pn, pg, stack, kind, tv, gsz, lg, lsz, 
-                                lcnt, csz, cg, hsz, ksz, i, op, n, sz, g, nchk, 
-                                res, hn, hg >>
+                /\ UNCHANGED << mem, sb, mutex, acc, alloc, gpok, gpw, gps, cs, 
+                                online, goff, held, htAlive, destroying, items, 
+                                growMax, done, err, rv, ra, rb, rs, osz, nsz, 
+                                oi, olast, fbr, hjob, ncreate, pnt, pk, pstart, 
+                                plen, ppl, pcov, pn, pg, stack, kind, tv, gsz, 
+                                lg, lsz, lcnt, csz, cg, hsz, ksz, i, op, n, sz, 
+                                g, nchk, res, woff, hn, hg >>
 
 w_disp(self) == /\ pc[self] = "w_disp"
                 /\ IF cur[self] = "rw"
-                      THEN /\ pc' = [pc EXCEPT ![self] = "w_lock"]
-                      ELSE /\ pc' = [pc EXCEPT ![self] = "w_db"]
+                      THEN /\ IF "reg_first" \in Mut
+                                 THEN /\ pc' = [pc EXCEPT ![self] = "w_oreg"]
+                                 ELSE /\ pc' = [pc EXCEPT ![self] = "w_lock"]
+                      ELSE /\ pc' = [pc EXCEPT ![self] = "w_reg2"]
                 /\ UNCHANGED << mem, sb, mutex, acc, alloc, gpok, gpw, gps, cs, 
-                                held, wq, htAlive, destroying, items, growMax, 
-                                done, err, errA, rv, ra, rb, rs, osz, nsz, oi, 
-                                olast, fbr, hjob, ncreate, pnt, pk, pstart, 
-                                plen, ppl, pcov, pn, pg, stack, kind, tv, gsz, 
-                                lg, lsz, lcnt, csz, cg, hsz, ksz, i, op, n, sz, 
-                                g, nchk, res, hn, hg, cur >>
+                                online, goff, held, wq, htAlive, destroying, 
+                                items, growMax, done, err, errA, rv, ra, rb, 
+                                rs, osz, nsz, oi, olast, fbr, hjob, ncreate, 
+                                pnt, pk, pstart, plen, ppl, pcov, pn, pg, 
+                                stack, kind, tv, gsz, lg, lsz, lcnt, csz, cg, 
+                                hsz, ksz, i, op, n, sz, g, nchk, res, woff, hn, 
+                                hg, cur >>
 
 w_lock(self) == /\ pc[self] = "w_lock"
                 /\ Drained(self) /\ mutex = "free"
                 /\ mutex' = self
                 /\ acc' = Ev(self, "lock", "resize_mutex", 0, 0, 0)
                 /\ errA' = Alive("lock")
-                /\ pc' = [pc EXCEPT ![self] = "w_do"]
-                /\ UNCHANGED << mem, sb, alloc, gpok, gpw, gps, cs, held, wq, 
-                                htAlive, destroying, items, growMax, done, err, 
-                                rv, ra, rb, rs, osz, nsz, oi, olast, fbr, hjob, 
-                                ncreate, pnt, pk, pstart, plen, ppl, pcov, pn, 
-                                pg, stack, kind, tv, gsz, lg, lsz, lcnt, csz, 
-                                cg, hsz, ksz, i, op, n, sz, g, nchk, res, hn, 
-                                hg, cur >>
+                /\ pc' = [pc EXCEPT ![self] = "w_reg"]
+                /\ UNCHANGED << mem, sb, alloc, gpok, gpw, gps, cs, online, 
+                                goff, held, wq, htAlive, destroying, items, 
+                                growMax, done, err, rv, ra, rb, rs, osz, nsz, 
+                                oi, olast, fbr, hjob, ncreate, pnt, pk, pstart, 
+                                plen, ppl, pcov, pn, pg, stack, kind, tv, gsz, 
+                                lg, lsz, lcnt, csz, cg, hsz, ksz, i, op, n, sz, 
+                                g, nchk, res, woff, hn, hg, cur >>
+
+w_reg(self) == /\ pc[self] = "w_reg"
+               /\ online' = [online EXCEPT ![self] = Qsbr]
+               /\ acc' = Ev(self, "reg", "-", 0, 0, 0)
+               /\ pc' = [pc EXCEPT ![self] = "w_do"]
+               /\ UNCHANGED << mem, sb, mutex, alloc, gpok, gpw, gps, cs, goff, 
+                               held, wq, htAlive, destroying, items, growMax, 
+                               done, err, errA, rv, ra, rb, rs, osz, nsz, oi, 
+                               olast, fbr, hjob, ncreate, pnt, pk, pstart, 
+                               plen, ppl, pcov, pn, pg, stack, kind, tv, gsz, 
+                               lg, lsz, lcnt, csz, cg, hsz, ksz, i, op, n, sz, 
+                               g, nchk, res, woff, hn, hg, cur >>
 
 w_do(self) == /\ pc[self] = "w_do"
               /\ stack' = [stack EXCEPT ![self] = << [ procedure |->  "do_resize",
-                                                       pc        |->  "w_unlock" ] >>
+                                                       pc        |->  "w_unreg" ] >>
                                                    \o stack[self]]
               /\ pc' = [pc EXCEPT ![self] = "dr_ld_ipd"]
               /\ UNCHANGED << mem, sb, mutex, acc, alloc, gpok, gpw, gps, cs, 
-                              held, wq, htAlive, destroying, items, growMax, 
-                              done, err, errA, rv, ra, rb, rs, osz, nsz, oi, 
-                              olast, fbr, hjob, ncreate, pnt, pk, pstart, plen, 
-                              ppl, pcov, pn, pg, kind, tv, gsz, lg, lsz, lcnt, 
-                              csz, cg, hsz, ksz, i, op, n, sz, g, nchk, res, 
-                              hn, hg, cur >>
+                              online, goff, held, wq, htAlive, destroying, 
+                              items, growMax, done, err, errA, rv, ra, rb, rs, 
+                              osz, nsz, oi, olast, fbr, hjob, ncreate, pnt, pk, 
+                              pstart, plen, ppl, pcov, pn, pg, kind, tv, gsz, 
+                              lg, lsz, lcnt, csz, cg, hsz, ksz, i, op, n, sz, 
+                              g, nchk, res, woff, hn, hg, cur >>
+
+w_unreg(self) == /\ pc[self] = "w_unreg"
+                 /\ online' = [online EXCEPT ![self] = FALSE]
+                 /\ gpw' = [p \in Procs |-> IF cs[self] THEN gpw[p] ELSE gpw[p] \ {self}]
+                 /\ acc' = Ev(self, "unreg", "-", 0, 0, 0)
+                 /\ pc' = [pc EXCEPT ![self] = "w_unlock"]
+                 /\ UNCHANGED << mem, sb, mutex, alloc, gpok, gps, cs, goff, 
+                                 held, wq, htAlive, destroying, items, growMax, 
+                                 done, err, errA, rv, ra, rb, rs, osz, nsz, oi, 
+                                 olast, fbr, hjob, ncreate, pnt, pk, pstart, 
+                                 plen, ppl, pcov, pn, pg, stack, kind, tv, gsz, 
+                                 lg, lsz, lcnt, csz, cg, hsz, ksz, i, op, n, 
+                                 sz, g, nchk, res, woff, hn, hg, cur >>
 
 w_unlock(self) == /\ pc[self] = "w_unlock"
                   /\ Drained(self)
                   /\ mutex' = "free"
                   /\ acc' = Ev(self, "unlock", "resize_mutex", 0, 0, 0)
                   /\ errA' = Alive("unlock")
-                  /\ pc' = [pc EXCEPT ![self] = "w_unreg"]
-                  /\ UNCHANGED << mem, sb, alloc, gpok, gpw, gps, cs, held, wq, 
-                                  htAlive, destroying, items, growMax, done, 
-                                  err, rv, ra, rb, rs, osz, nsz, oi, olast, 
-                                  fbr, hjob, ncreate, pnt, pk, pstart, plen, 
-                                  ppl, pcov, pn, pg, stack, kind, tv, gsz, lg, 
-                                  lsz, lcnt, csz, cg, hsz, ksz, i, op, n, sz, 
-                                  g, nchk, res, hn, hg, cur >>
-
-w_unreg(self) == /\ pc[self] = "w_unreg"
-                 /\ acc' = Ev(self, "unreg", "-", 0, 0, 0)
-                 /\ pc' = [pc EXCEPT ![self] = "w_wfree"]
-                 /\ UNCHANGED << mem, sb, mutex, alloc, gpok, gpw, gps, cs, 
-                                 held, wq, htAlive, destroying, items, growMax, 
-                                 done, err, errA, rv, ra, rb, rs, osz, nsz, oi, 
-                                 olast, fbr, hjob, ncreate, pnt, pk, pstart, 
-                                 plen, ppl, pcov, pn, pg, stack, kind, tv, gsz, 
-                                 lg, lsz, lcnt, csz, cg, hsz, ksz, i, op, n, 
-                                 sz, g, nchk, res, hn, hg, cur >>
+                  /\ pc' = [pc EXCEPT ![self] = "w_wfree"]
+                  /\ UNCHANGED << mem, sb, alloc, gpok, gpw, gps, cs, online, 
+                                  goff, held, wq, htAlive, destroying, items, 
+                                  growMax, done, err, rv, ra, rb, rs, osz, nsz, 
+                                  oi, olast, fbr, hjob, ncreate, pnt, pk, 
+                                  pstart, plen, ppl, pcov, pn, pg, stack, kind, 
+                                  tv, gsz, lg, lsz, lcnt, csz, cg, hsz, ksz, i, 
+                                  op, n, sz, g, nchk, res, woff, hn, hg, cur >>
 
 w_wfree(self) == /\ pc[self] = "w_wfree"
                  /\ acc' = Ev(self, "wfree", "rw", 0, 0, 0)
                  /\ pc' = [pc EXCEPT ![self] = "w_wait"]
                  /\ UNCHANGED << mem, sb, mutex, alloc, gpok, gpw, gps, cs, 
-                                 held, wq, htAlive, destroying, items, growMax, 
-                                 done, err, errA, rv, ra, rb, rs, osz, nsz, oi, 
-                                 olast, fbr, hjob, ncreate, pnt, pk, pstart, 
-                                 plen, ppl, pcov, pn, pg, stack, kind, tv, gsz, 
-                                 lg, lsz, lcnt, csz, cg, hsz, ksz, i, op, n, 
-                                 sz, g, nchk, res, hn, hg, cur >>
+                                 online, goff, held, wq, htAlive, destroying, 
+                                 items, growMax, done, err, errA, rv, ra, rb, 
+                                 rs, osz, nsz, oi, olast, fbr, hjob, ncreate, 
+                                 pnt, pk, pstart, plen, ppl, pcov, pn, pg, 
+                                 stack, kind, tv, gsz, lg, lsz, lcnt, csz, cg, 
+                                 hsz, ksz, i, op, n, sz, g, nchk, res, woff, 
+                                 hn, hg, cur >>
+
+w_oreg(self) == /\ pc[self] = "w_oreg"
+                /\ online' = [online EXCEPT ![self] = Qsbr]
+                /\ acc' = Ev(self, "reg", "-", 0, 0, 0)
+                /\ pc' = [pc EXCEPT ![self] = "w_olock"]
+                /\ UNCHANGED << mem, sb, mutex, alloc, gpok, gpw, gps, cs, 
+                                goff, held, wq, htAlive, destroying, items, 
+                                growMax, done, err, errA, rv, ra, rb, rs, osz, 
+                                nsz, oi, olast, fbr, hjob, ncreate, pnt, pk, 
+                                pstart, plen, ppl, pcov, pn, pg, stack, kind, 
+                                tv, gsz, lg, lsz, lcnt, csz, cg, hsz, ksz, i, 
+                                op, n, sz, g, nchk, res, woff, hn, hg, cur >>
+
+w_olock(self) == /\ pc[self] = "w_olock"
+                 /\ Drained(self) /\ mutex = "free"
+                 /\ mutex' = self
+                 /\ acc' = Ev(self, "lock", "resize_mutex", 0, 0, 0)
+                 /\ errA' = Alive("lock")
+                 /\ pc' = [pc EXCEPT ![self] = "w_odo"]
+                 /\ UNCHANGED << mem, sb, alloc, gpok, gpw, gps, cs, online, 
+                                 goff, held, wq, htAlive, destroying, items, 
+                                 growMax, done, err, rv, ra, rb, rs, osz, nsz, 
+                                 oi, olast, fbr, hjob, ncreate, pnt, pk, 
+                                 pstart, plen, ppl, pcov, pn, pg, stack, kind, 
+                                 tv, gsz, lg, lsz, lcnt, csz, cg, hsz, ksz, i, 
+                                 op, n, sz, g, nchk, res, woff, hn, hg, cur >>
+
+w_odo(self) == /\ pc[self] = "w_odo"
+               /\ stack' = [stack EXCEPT ![self] = << [ procedure |->  "do_resize",
+                                                        pc        |->  "w_ounlock" ] >>
+                                                    \o stack[self]]
+               /\ pc' = [pc EXCEPT ![self] = "dr_ld_ipd"]
+               /\ UNCHANGED << mem, sb, mutex, acc, alloc, gpok, gpw, gps, cs, 
+                               online, goff, held, wq, htAlive, destroying, 
+                               items, growMax, done, err, errA, rv, ra, rb, rs, 
+                               osz, nsz, oi, olast, fbr, hjob, ncreate, pnt, 
+                               pk, pstart, plen, ppl, pcov, pn, pg, kind, tv, 
+                               gsz, lg, lsz, lcnt, csz, cg, hsz, ksz, i, op, n, 
+                               sz, g, nchk, res, woff, hn, hg, cur >>
+
+w_ounlock(self) == /\ pc[self] = "w_ounlock"
+                   /\ Drained(self)
+                   /\ mutex' = "free"
+                   /\ acc' = Ev(self, "unlock", "resize_mutex", 0, 0, 0)
+                   /\ errA' = Alive("unlock")
+                   /\ pc' = [pc EXCEPT ![self] = "w_ounreg"]
+                   /\ UNCHANGED << mem, sb, alloc, gpok, gpw, gps, cs, online, 
+                                   goff, held, wq, htAlive, destroying, items, 
+                                   growMax, done, err, rv, ra, rb, rs, osz, 
+                                   nsz, oi, olast, fbr, hjob, ncreate, pnt, pk, 
+                                   pstart, plen, ppl, pcov, pn, pg, stack, 
+                                   kind, tv, gsz, lg, lsz, lcnt, csz, cg, hsz, 
+                                   ksz, i, op, n, sz, g, nchk, res, woff, hn, 
+                                   hg, cur >>
+
+w_ounreg(self) == /\ pc[self] = "w_ounreg"
+                  /\ online' = [online EXCEPT ![self] = FALSE]
+                  /\ gpw' = [p \in Procs |-> IF cs[self] THEN gpw[p] ELSE gpw[p] \ {self}]
+                  /\ acc' = Ev(self, "unreg", "-", 0, 0, 0)
+                  /\ pc' = [pc EXCEPT ![self] = "w_wfree"]
+                  /\ UNCHANGED << mem, sb, mutex, alloc, gpok, gps, cs, goff, 
+                                  held, wq, htAlive, destroying, items, 
+                                  growMax, done, err, errA, rv, ra, rb, rs, 
+                                  osz, nsz, oi, olast, fbr, hjob, ncreate, pnt, 
+                                  pk, pstart, plen, ppl, pcov, pn, pg, stack, 
+                                  kind, tv, gsz, lg, lsz, lcnt, csz, cg, hsz, 
+                                  ksz, i, op, n, sz, g, nchk, res, woff, hn, 
+                                  hg, cur >>
+
+w_reg2(self) == /\ pc[self] = "w_reg2"
+                /\ online' = [online EXCEPT ![self] = Qsbr]
+                /\ acc' = Ev(self, "reg", "-", 0, 0, 0)
+                /\ pc' = [pc EXCEPT ![self] = "w_db"]
+                /\ UNCHANGED << mem, sb, mutex, alloc, gpok, gpw, gps, cs, 
+                                goff, held, wq, htAlive, destroying, items, 
+                                growMax, done, err, errA, rv, ra, rb, rs, osz, 
+                                nsz, oi, olast, fbr, hjob, ncreate, pnt, pk, 
+                                pstart, plen, ppl, pcov, pn, pg, stack, kind, 
+                                tv, gsz, lg, lsz, lcnt, csz, cg, hsz, ksz, i, 
+                                op, n, sz, g, nchk, res, woff, hn, hg, cur >>
 
 w_db(self) == /\ pc[self] = "w_db"
               /\ stack' = [stack EXCEPT ![self] = << [ procedure |->  "delete_bucket",
@@ -2427,12 +2665,12 @@ w_db(self) == /\ pc[self] = "w_db"
                                                    \o stack[self]]
               /\ pc' = [pc EXCEPT ![self] = "db_chk"]
               /\ UNCHANGED << mem, sb, mutex, acc, alloc, gpok, gpw, gps, cs, 
-                              held, wq, htAlive, destroying, items, growMax, 
-                              done, err, errA, rv, ra, rb, rs, osz, nsz, oi, 
-                              olast, fbr, hjob, ncreate, pnt, pk, pstart, plen, 
-                              ppl, pcov, pn, pg, kind, tv, gsz, lg, lsz, lcnt, 
-                              csz, cg, hsz, ksz, i, op, n, sz, g, nchk, res, 
-                              hn, hg, cur >>
+                              online, goff, held, wq, htAlive, destroying, 
+                              items, growMax, done, err, errA, rv, ra, rb, rs, 
+                              osz, nsz, oi, olast, fbr, hjob, ncreate, pnt, pk, 
+                              pstart, plen, ppl, pcov, pn, pg, kind, tv, gsz, 
+                              lg, lsz, lcnt, csz, cg, hsz, ksz, i, op, n, sz, 
+                              g, nchk, res, woff, hn, hg, cur >>
 
 w_fsc(self) == /\ pc[self] = "w_fsc"
                /\ err' = (IF rv[self] = 0 THEN err ELSE err \cup {"destroy_cb_nonempty"})
@@ -2441,41 +2679,46 @@ w_fsc(self) == /\ pc[self] = "w_fsc"
                      ELSE /\ TRUE
                           /\ acc' = acc
                /\ pc' = [pc EXCEPT ![self] = "w_unreg2"]
-               /\ UNCHANGED << mem, sb, mutex, alloc, gpok, gpw, gps, cs, held, 
-                               wq, htAlive, destroying, items, growMax, done, 
-                               errA, rv, ra, rb, rs, osz, nsz, oi, olast, fbr, 
-                               hjob, ncreate, pnt, pk, pstart, plen, ppl, pcov, 
-                               pn, pg, stack, kind, tv, gsz, lg, lsz, lcnt, 
-                               csz, cg, hsz, ksz, i, op, n, sz, g, nchk, res, 
-                               hn, hg, cur >>
+               /\ UNCHANGED << mem, sb, mutex, alloc, gpok, gpw, gps, cs, 
+                               online, goff, held, wq, htAlive, destroying, 
+                               items, growMax, done, errA, rv, ra, rb, rs, osz, 
+                               nsz, oi, olast, fbr, hjob, ncreate, pnt, pk, 
+                               pstart, plen, ppl, pcov, pn, pg, stack, kind, 
+                               tv, gsz, lg, lsz, lcnt, csz, cg, hsz, ksz, i, 
+                               op, n, sz, g, nchk, res, woff, hn, hg, cur >>
 
 w_unreg2(self) == /\ pc[self] = "w_unreg2"
+                  /\ online' = [online EXCEPT ![self] = FALSE]
+                  /\ gpw' = [p \in Procs |-> IF cs[self] THEN gpw[p] ELSE gpw[p] \ {self}]
                   /\ acc' = Ev(self, "unreg", "-", 0, 0, 0)
                   /\ pc' = [pc EXCEPT ![self] = "w_fht"]
-                  /\ UNCHANGED << mem, sb, mutex, alloc, gpok, gpw, gps, cs, 
+                  /\ UNCHANGED << mem, sb, mutex, alloc, gpok, gps, cs, goff, 
                                   held, wq, htAlive, destroying, items, 
                                   growMax, done, err, errA, rv, ra, rb, rs, 
                                   osz, nsz, oi, olast, fbr, hjob, ncreate, pnt, 
                                   pk, pstart, plen, ppl, pcov, pn, pg, stack, 
                                   kind, tv, gsz, lg, lsz, lcnt, csz, cg, hsz, 
-                                  ksz, i, op, n, sz, g, nchk, res, hn, hg, cur >>
+                                  ksz, i, op, n, sz, g, nchk, res, woff, hn, 
+                                  hg, cur >>
 
 w_fht(self) == /\ pc[self] = "w_fht"
                /\ htAlive' = FALSE
                /\ acc' = Ev(self, "htfree", "-", 0, 0, 0)
                /\ pc' = [pc EXCEPT ![self] = "w_wait"]
-               /\ UNCHANGED << mem, sb, mutex, alloc, gpok, gpw, gps, cs, held, 
-                               wq, destroying, items, growMax, done, err, errA, 
-                               rv, ra, rb, rs, osz, nsz, oi, olast, fbr, hjob, 
-                               ncreate, pnt, pk, pstart, plen, ppl, pcov, pn, 
-                               pg, stack, kind, tv, gsz, lg, lsz, lcnt, csz, 
-                               cg, hsz, ksz, i, op, n, sz, g, nchk, res, hn, 
-                               hg, cur >>
+               /\ UNCHANGED << mem, sb, mutex, alloc, gpok, gpw, gps, cs, 
+                               online, goff, held, wq, destroying, items, 
+                               growMax, done, err, errA, rv, ra, rb, rs, osz, 
+                               nsz, oi, olast, fbr, hjob, ncreate, pnt, pk, 
+                               pstart, plen, ppl, pcov, pn, pg, stack, kind, 
+                               tv, gsz, lg, lsz, lcnt, csz, cg, hsz, ksz, i, 
+                               op, n, sz, g, nchk, res, woff, hn, hg, cur >>
 
-worker(self) == w_wait(self) \/ w_disp(self) \/ w_lock(self) \/ w_do(self)
-                   \/ w_unlock(self) \/ w_unreg(self) \/ w_wfree(self)
-                   \/ w_db(self) \/ w_fsc(self) \/ w_unreg2(self)
-                   \/ w_fht(self)
+worker(self) == w_wait(self) \/ w_disp(self) \/ w_lock(self) \/ w_reg(self)
+                   \/ w_do(self) \/ w_unreg(self) \/ w_unlock(self)
+                   \/ w_wfree(self) \/ w_oreg(self) \/ w_olock(self)
+                   \/ w_odo(self) \/ w_ounlock(self) \/ w_ounreg(self)
+                   \/ w_reg2(self) \/ w_db(self) \/ w_fsc(self)
+                   \/ w_unreg2(self) \/ w_fht(self)
 
 Next == (\E self \in ProcSet:  \/ partition(self) \/ do_resize(self)
                                \/ target_grow(self) \/ lazy_launch(self)
